@@ -753,46 +753,51 @@ Qed.
 Lemma set_value_unset q v h h1 : set_value q v h = Some h1 -> is_unset h q = true.
 Proof. intros H. destruct (set_value_spec _ _ _ _ H) as [k [key [E _]]]. apply is_unset_true. eauto. Qed.
 
-(* the container after one more iteration of the loop over map k *)
-Definition iter (c : cont) (k : bool) (key : Z) (q : nat) (h1 : heap_t) : cont :=
-  Cont (pend c) (setf (used c) k (aput key q (used c k))) (drop_opt (afind key (used c k)) h1).
-
-Lemma finish_step v k key q r c cf : finish v k ((key, q) :: r) c = Some cf ->
-  exists h1, set_value q v (heap c) = Some h1 /\ finish v k r (iter c k key q h1) = Some cf.
+Lemma adel_all_other key (m : amap) : ~ In key (keys m) -> adel key m = m.
 Proof.
-  unfold finish. destruct k; cbn [fulfill].
-  - destruct (set_value q v (heap c)) as [h1|] eqn:Hs; [|discriminate]. intros H. exists h1. split; [reflexivity|].
-    unfold iter. cbn [pend used heap]. rewrite setf_eq. rewrite (setf_ne _ true _ false) by discriminate. exact H.
-  - destruct (set_value q v (heap c)) as [h1|] eqn:Hs; [|discriminate]. intros H. exists h1. split; [reflexivity|].
-    unfold iter. cbn [pend used heap]. rewrite setf_eq. rewrite (setf_ne _ false _ true) by discriminate. exact H.
+  unfold adel. induction m as [|[k q] r IH]; cbn; intros Hn; [reflexivity|].
+  destruct (Z.eqb_spec k key) as [->|Hne]; [tauto|]. cbn. rewrite IH by tauto. reflexivity.
 Qed.
-Lemma finish_head_unset v k key q r c cf : finish v k ((key, q) :: r) c = Some cf -> is_unset (heap c) q = true.
-Proof. intros H. destruct (finish_step _ _ _ _ _ _ _ H) as [h1 [Hs _]]. eapply set_value_unset; eauto. Qed.
-
-(* where the iterator goes next, given that the sequential rest of the method succeeds with cf *)
-Lemma ful_goto_spec v d c0 c k r cf c' p' flt : finish v k r c = Some cf ->
-  ful_goto v d c0 c k r = (c', p', flt) ->
-  flt = false /\
-  ((exists k' key q r', p' = P_ful v k' key q r' d c0 /\ c' = c /\ finish v k' ((key, q) :: r') c = Some cf) \/
-   (p' = P_unlock (ORet 0) /\ c' = cf)).
+Lemma adel_head key q r : NoDup (keys ((key, q) :: r)) -> adel key ((key, q) :: r) = r.
 Proof.
-  intros Hf Hg. unfold ful_goto in Hg. destruct r as [|[key q] r'].
+  intros Hnd. inversion Hnd as [|? ? Hk Hr]; subst. unfold adel. cbn [filter fst]. rewrite Z.eqb_refl. cbn [negb].
+  apply adel_all_other. exact Hk.
+Qed.
+
+(* one iteration of the repaired loop IS the body of setDelayedValue for the key at the iterator *)
+Lemma iter_is_set c mv k key q r v h1 : pend c k = (key, q) :: r -> set_value q v (heap c) = Some h1 ->
+  apply (SetValue mv k key v) c = (iter false c k key q h1, 0, false).
+Proof.
+  intros Hp Hs. cbn [apply]. rewrite Hp. cbn [afind]. rewrite Z.eqb_refl, Hs. unfold iter. rewrite Hp. reflexivity.
+Qed.
+Lemma iter_pend c k key q r h1 : CInv c -> pend c k = (key, q) :: r ->
+  pend (iter false c k key q h1) k = r /\ (forall k', k' <> k -> pend (iter false c k key q h1) k' = pend c k').
+Proof.
+  intros HI Hp. unfold iter. cbn [pend]. split.
+  - rewrite setf_eq, Hp. apply adel_head. rewrite <- Hp. apply (C_pnd _ HI).
+  - intros k' Hne. apply setf_ne. exact Hne.
+Qed.
+
+(* where the iterator goes next (repaired loop): rest is what is left of map k *)
+Lemma ful_goto_spec v c0 c k r c' p' flt : CInv c -> pend c k = r -> (k = true -> pend c false = []) ->
+  ful_goto false v c0 c k r = (c', p', flt) ->
+  flt = false /\ c' = c /\
+  ((exists k' key q r', p' = P_ful v k' key q r' c0 /\ pend c k' = (key, q) :: r' /\ (k' = true -> pend c false = [])) \/
+   (p' = P_unlock (ORet 0) /\ pend c false = [] /\ pend c true = [])).
+Proof.
+  intros HI Hp Hk Hg. unfold ful_goto in Hg.
+  assert (Hun : forall k0 key q r', pend c k0 = (key, q) :: r' -> is_unset (heap c) q = true).
+  { intros k0 key q r' E. apply is_unset_true. exists k0, key. apply (C_pend _ HI). rewrite E. left; reflexivity. }
+  destruct r as [|[key q] r'].
   - destruct k.
-    + inversion Hg; subst. split; [reflexivity|]. right. split; [reflexivity|].
-      unfold finish in Hf. cbn in Hf. inversion Hf. reflexivity.
-    + destruct (pend c true) as [|[key q] r'] eqn:Hp.
-      * inversion Hg; subst. split; [reflexivity|]. right. split; [reflexivity|].
-        unfold finish in Hf. cbn in Hf. rewrite Hp in Hf. cbn in Hf. inversion Hf. reflexivity.
-      * assert (Hf' : finish v true ((key, q) :: r') c = Some cf).
-        { unfold finish in *. cbn [fulfill] in Hf. rewrite Hp in Hf. exact Hf. }
-        rewrite (finish_head_unset _ _ _ _ _ _ _ Hf') in Hg. inversion Hg; subst. split; [reflexivity|].
+    + inversion Hg; subst. repeat split; auto.
+    + destruct (pend c true) as [|[key q] r'] eqn:Ht.
+      * inversion Hg; subst. repeat split; auto.
+      * rewrite (Hun true key q r' Ht) in Hg. inversion Hg; subst. repeat split; auto.
         left. exists true, key, q, r'. auto.
-  - rewrite (finish_head_unset _ _ _ _ _ _ _ Hf) in Hg. inversion Hg; subst. split; [reflexivity|].
+  - rewrite (Hun k key q r' Hp) in Hg. inversion Hg; subst. repeat split; auto.
     left. exists k, key, q, r'. auto.
 Qed.
-
-Lemma apply_fulfill_finish v c cf : apply (FulfillAll v) c = (cf, 0, false) -> finish v false (pend c false) c = Some cf.
-Proof. cbn [apply]. destruct (finish v false (pend c false) c); intros H; inversion H; reflexivity. Qed.
 
 Lemma enter_atomic_spec o c c1 rv fl c' p' flt : CInv c -> apply o c = (c1, rv, fl) ->
   (c1, P_unlock (out_of rv fl), fl) = (c', p', flt) ->
@@ -803,40 +808,38 @@ Proof.
 Qed.
 
 (* the lock step of a method on a container satisfying the invariant *)
-Lemma enter_spec o c c' p' flt : CInv c -> enter o c = (c', p', flt) ->
+Lemma enter_spec o c c' p' flt : CInv c -> enter false o c = (c', p', flt) ->
   flt = false /\
   ((exists k key v q, o = SetValue false k key v /\ p' = P_call o /\ c' = c /\ afind key (pend c k) = Some q) \/
-   (exists rv, p' = P_unlock (ORet rv) /\ apply o c = (c', rv, false)) \/
-   (exists v k key q r cf, o = FulfillAll v /\ p' = P_ful v k key q r 0 c /\ c' = c /\
-      apply o c = (cf, 0, false) /\ finish v k ((key, q) :: r) c = Some cf)).
+   (exists rv, (forall v, o <> FulfillAll v) /\ p' = P_unlock (ORet rv) /\ apply o c = (c', rv, false)) \/
+   (exists v, o = FulfillAll v /\ c' = c /\
+      ((exists k key q r, p' = P_ful v k key q r c /\ pend c k = (key, q) :: r /\ (k = true -> pend c false = [])) \/
+       (p' = P_unlock (ORet 0) /\ pend c false = [] /\ pend c true = [])))).
 Proof.
   intros HI He.
   destruct o; cbn [enter] in He;
-    try (destruct (apply _ c) as [[c1 rv] fl] eqn:Ha in He; destruct (enter_atomic_spec _ _ _ _ _ _ _ _ HI Ha He) as [-> H];
-         split; [reflexivity|right; left; exact H]).
+    try (destruct (apply _ c) as [[c1 rv] fl] eqn:Ha in He; destruct (enter_atomic_spec _ _ _ _ _ _ _ _ HI Ha He) as [-> [rv0 [H1 H2]]];
+         split; [reflexivity|right; left; exists rv0; repeat split; auto; discriminate]).
   - (* setDelayedValue *)
     destruct mv.
     + destruct (apply (SetValue true k key v) c) as [[c1 rv] fl] eqn:Ha in He.
-      destruct (enter_atomic_spec _ _ _ _ _ _ _ _ HI Ha He) as [-> H]. split; [reflexivity|right; left; exact H].
+      destruct (enter_atomic_spec _ _ _ _ _ _ _ _ HI Ha He) as [-> [rv0 [H1 H2]]].
+      split; [reflexivity|right; left; exists rv0; repeat split; auto; discriminate].
     + destruct (afind key (pend c k)) as [q|] eqn:Hf.
       * assert (is_unset (heap c) q = true) as Hu.
         { apply is_unset_true. exists k, key. apply (C_pend _ HI). apply afind_In. exact Hf. }
         rewrite Hu in He. inversion He; subst. split; [reflexivity|]. left. exists k, key, v, q. auto.
-      * inversion He; subst. split; [reflexivity|]. right; left. exists 0. split; [reflexivity|].
+      * inversion He; subst. split; [reflexivity|]. right; left. exists 0. repeat split; [discriminate|].
         apply apply_set_noop. exact Hf.
   - (* fulfillAllPromises *)
-    destruct (apply (FulfillAll v) c) as [[cf rv] fl] eqn:Ha.
-    destruct (apply_CInv _ _ _ _ _ HI Ha) as [_ ->].
-    assert (rv = 0) as -> by (cbn [apply] in Ha; destruct (finish v false (pend c false) c); inversion Ha; reflexivity).
-    pose proof (apply_fulfill_finish _ _ _ Ha) as Hfin.
-    destruct (ful_goto_spec _ _ _ _ _ _ _ _ _ _ Hfin He) as [-> [[k' [key [q [r' [-> [-> Hf']]]]]]|[-> ->]]].
-    + split; [reflexivity|]. right; right. exists v, k', key, q, r', cf. auto.
-    + split; [reflexivity|]. right; left. exists 0. auto.
+    assert (Hk0 : false = true -> pend c false = []) by discriminate.
+    destruct (ful_goto_spec _ _ _ _ _ _ _ _ HI eq_refl Hk0 He) as [-> [-> Hc]].
+    split; [reflexivity|]. right; right. exists v. repeat split; auto.
 Qed.
 
 (* one iteration satisfies exactly the promise at the iterator *)
 Lemma iter_heap c k key q v h1 : CInv c \/ True -> set_value q v (heap c) = Some h1 ->
-  forall i k0 key0 w, nth_error (heap (iter c k key q h1)) i = Some (Cell k0 key0 (SetV w)) ->
+  forall i k0 key0 w, nth_error (heap (iter false c k key q h1)) i = Some (Cell k0 key0 (SetV w)) ->
     nth_error (heap c) i = Some (Cell k0 key0 (SetV w)) \/ (i = q /\ w = v).
 Proof.
   intros _ Hs i k0 key0 w Hi. unfold iter in Hi. cbn [heap] in Hi.
@@ -849,9 +852,9 @@ Proof.
   - rewrite E' in Hh1. inversion Hh1; subst. right; auto.
   - rewrite Ho in Hh1 by exact Hne. left; exact Hh1.
 Qed.
-Lemma iter_hle c k key q v h1 : set_value q v (heap c) = Some h1 -> hle (heap c) (heap (iter c k key q h1)).
+Lemma iter_hle c k key q v h1 : set_value q v (heap c) = Some h1 -> hle (heap c) (heap (iter false c k key q h1)).
 Proof. intros Hs. unfold iter; cbn [heap]. eapply hle_trans; [eapply hle_set_value; eauto|apply hle_drop_opt]. Qed.
-Lemma ful_goto_heap v d c0 c k r c' p' flt : ful_goto v d c0 c k r = (c', p', flt) -> heap c' = heap c.
+Lemma ful_goto_heap v c0 c k r c' p' flt : ful_goto false v c0 c k r = (c', p', flt) -> heap c' = heap c.
 Proof.
   unfold ful_goto. destruct r as [|[key q] r'].
   - destruct k; [intros H; inversion H; reflexivity|].
@@ -859,14 +862,14 @@ Proof.
     destruct (is_unset (heap c) q); intros H; inversion H; reflexivity.
   - destruct (is_unset (heap c) q); intros H; inversion H; reflexivity.
 Qed.
-Lemma enter_hle o c c' p' flt : enter o c = (c', p', flt) -> hle (heap c) (heap c').
+Lemma enter_hle o c c' p' flt : enter false o c = (c', p', flt) -> hle (heap c) (heap c').
 Proof.
   intros He.
   destruct o; cbn [enter] in He;
     try solve [destruct (apply _ c) as [[c1 rv] fl] eqn:Ha; inversion He; subst; eapply apply_hle; exact Ha].
   - destruct mv; [destruct (apply (SetValue true k key v) c) as [[c1 rv] fl] eqn:Ha; inversion He; subst; eapply apply_hle; exact Ha|].
     destruct (afind key (pend c k)); [destruct (is_unset (heap c) n)|]; inversion He; subst; apply hle_refl.
-  - rewrite (ful_goto_heap _ _ _ _ _ _ _ _ _ He). apply hle_refl.
+  - rewrite (ful_goto_heap _ _ _ _ _ _ _ _ He). apply hle_refl.
 Qed.
 
 (* ====================================================================== *)
@@ -887,8 +890,8 @@ Arguments pcof : simpl never.
 
 (* the pcs at which a thread owns promiseLock *)
 Definition holds (p : pc) : bool :=
-  match p with P_call _ | P_ful _ _ _ _ _ _ _ | P_unlock _ => true | _ => false end.
-Definition is_ful (p : pc) : bool := match p with P_ful _ _ _ _ _ _ _ => true | _ => false end.
+  match p with P_call _ | P_ful _ _ _ _ _ _ | P_unlock _ => true | _ => false end.
+Definition is_ful (p : pc) : bool := match p with P_ful _ _ _ _ _ _ => true | _ => false end.
 Definition is_lock (p : pc) : bool := match p with P_lock _ => true | _ => false end.
 
 (* what a client-side observation (no library call) returns *)
@@ -911,44 +914,44 @@ Definition unlock_evs (out : outc) : list ev :=
   | OExn => [E K_CATCH 0 0]
   end.
 
-(* the nine kinds of step *)
+(* the nine kinds of step (of the repaired header: tstep = tstep_gen false) *)
 Inductive stepk (t : nat) (g : glob) (l : loc) : glob -> loc -> list ev -> Prop :=
 | S_invoke o r : at_ l = Idle -> prog l = o :: r -> locks o = true ->
     stepk t g l g (Loc r (P_lock o) (slots l)) [E K_INVOKE 0 (opcode o)]
 | S_observe o r : at_ l = Idle -> prog l = o :: r -> locks o = false ->
     stepk t g l g (Loc r Idle (slots l)) [E K_INVOKE 0 (opcode o); E K_RET 0 (client_obs o g l)]
-| S_lock o c' p' flt : at_ l = P_lock o -> mtx g = None -> enter o (ct g) = (c', p', flt) ->
-    stepk t g l (Glob c' (Some t) (faulted g || flt) (plan g) (calls g) (torn g) (began g ++ [(t, o)])
+| S_lock o c' p' flt : at_ l = P_lock o -> mtx g = None -> enter false o (ct g) = (c', p', flt) ->
+    stepk t g l (Glob c' (Some t) (faulted g || flt) (plan g) (calls g) (began g ++ [(t, o)])
                       (log_out t o p' (hist g)))
           (Loc (prog l) p' (new_slots o g l)) [E K_LOCK O_MTX 0]
 | S_call_throw o : at_ l = P_call o -> throws g = true ->
-    stepk t g l (Glob (ct g) (mtx g) (faulted g) (plan g) (calls g + 1) (torn g) (began g) (hist g ++ [(t, o, OExn)]))
+    stepk t g l (Glob (ct g) (mtx g) (faulted g) (plan g) (calls g + 1) (began g) (hist g ++ [(t, o, OExn)]))
           (Loc (prog l) (P_unlock OExn) (slots l)) [E K_CALL 0 (val_of o); E K_THROW 0 (calls g)]
 | S_call_ok o c' rv flt : at_ l = P_call o -> throws g = false -> apply o (ct g) = (c', rv, flt) ->
-    stepk t g l (Glob c' (mtx g) (faulted g || flt) (plan g) (calls g + 1) (torn g) (began g)
+    stepk t g l (Glob c' (mtx g) (faulted g || flt) (plan g) (calls g + 1) (began g)
                       (log_out t o (P_unlock (out_of rv flt)) (hist g)))
           (Loc (prog l) (P_unlock (out_of rv flt)) (slots l)) [E K_CALL 0 (val_of o)]
-| S_ful_throw v k key q r done c0 : at_ l = P_ful v k key q r done c0 -> throws g = true ->
-    stepk t g l (Glob (ct g) (mtx g) (faulted g) (plan g) (calls g + 1) (torn g || negb (Nat.eqb done 0)) (began g)
+| S_ful_throw v k key q r c0 : at_ l = P_ful v k key q r c0 -> throws g = true ->
+    stepk t g l (Glob (ct g) (mtx g) (faulted g) (plan g) (calls g + 1) (began g)
                       (hist g ++ [(t, FulfillAll v, OExn)]))
           (Loc (prog l) (P_unlock OExn) (slots l)) [E K_CALL 0 v; E K_THROW 0 (calls g)]
-| S_ful_bad v k key q r done c0 : at_ l = P_ful v k key q r done c0 -> throws g = false ->
+| S_ful_bad v k key q r c0 : at_ l = P_ful v k key q r c0 -> throws g = false ->
     set_value q v (heap (ct g)) = None ->
-    stepk t g l (Glob (ct g) (mtx g) true (plan g) (calls g + 1) (torn g) (began g) (hist g))
+    stepk t g l (Glob (ct g) (mtx g) true (plan g) (calls g + 1) (began g) (hist g))
           (Loc (prog l) (P_unlock OFault) (slots l)) [E K_CALL 0 v]
-| S_ful_ok v k key q r done c0 h1 c' p' flt : at_ l = P_ful v k key q r done c0 -> throws g = false ->
+| S_ful_ok v k key q r c0 h1 c' p' flt : at_ l = P_ful v k key q r c0 -> throws g = false ->
     set_value q v (heap (ct g)) = Some h1 ->
-    ful_goto v (S done) c0 (iter (ct g) k key q h1) k r = (c', p', flt) ->
-    stepk t g l (Glob c' (mtx g) (faulted g || flt) (plan g) (calls g + 1) (torn g) (began g)
-                      (log_out t (FulfillAll v) p' (hist g)))
+    ful_goto false v c0 (iter false (ct g) k key q h1) k r = (c', p', flt) ->
+    stepk t g l (Glob c' (mtx g) (faulted g || flt) (plan g) (calls g + 1) (began g)
+                      (log_out t (FulfillAll v) p' (hist g ++ [(t, SetValue true k key v, ORet 0)])))
           (Loc (prog l) p' (slots l)) [E K_CALL 0 v]
 | S_unlock out : at_ l = P_unlock out ->
-    stepk t g l (Glob (ct g) None (faulted g) (plan g) (calls g) (torn g) (began g) (hist g))
+    stepk t g l (Glob (ct g) None (faulted g) (plan g) (calls g) (began g) (hist g))
           (Loc (prog l) Idle (slots l)) (unlock_evs out).
 
 Lemma tstep_stepk t c g l g' l' es : tstep t c g l = Some (g', l', es) -> stepk t g l g' l' es.
 Proof.
-  intros Hs. destruct l as [pr p sl]. unfold tstep in Hs. cbn [at_ prog slots] in *. destruct p.
+  intros Hs. destruct l as [pr p sl]. unfold tstep, tstep_gen in Hs. cbn [at_ prog slots] in *. destruct p.
   - destruct pr as [|o r]; [discriminate|].
     destruct o; inversion Hs; subst;
       match goal with
@@ -958,26 +961,29 @@ Proof.
         end
       end.
   - destruct (mtx g) eqn:Hm; [discriminate|].
-    destruct (enter o (ct g)) as [[c' p'] flt] eqn:He. inversion Hs; subst.
+    destruct (enter false o (ct g)) as [[c' p'] flt] eqn:He. inversion Hs; subst.
     match goal with |- stepk _ _ ?l0 _ _ _ => apply (S_lock _ _ l0 o c' p' flt); auto end.
   - destruct (throws g) eqn:Ht.
     + inversion Hs; subst. match goal with |- stepk _ _ ?l0 _ _ _ => apply (S_call_throw _ _ l0 o); auto end.
     + destruct (apply o (ct g)) as [[c' rv] flt] eqn:Ha. inversion Hs; subst.
       match goal with |- stepk _ _ ?l0 _ _ _ => apply (S_call_ok _ _ l0 o c' rv flt); auto end.
   - destruct (throws g) eqn:Ht.
-    + inversion Hs; subst. match goal with |- stepk _ _ ?l0 _ _ _ => apply (S_ful_throw _ _ l0 v k key q r done c0); auto end.
+    + inversion Hs; subst. match goal with |- stepk _ _ ?l0 _ _ _ => apply (S_ful_throw _ _ l0 v k key q r c0); auto end.
     + destruct (set_value q v (heap (ct g))) as [h1|] eqn:Hv.
-      * destruct (ful_goto v (S done) c0 _ k r) as [[c' p'] flt] eqn:Hg. inversion Hs; subst.
-        match goal with |- stepk _ _ ?l0 _ _ _ => apply (S_ful_ok _ _ l0 v k key q r done c0 h1 c' p' flt); auto end.
-      * inversion Hs; subst. match goal with |- stepk _ _ ?l0 _ _ _ => apply (S_ful_bad _ _ l0 v k key q r done c0); auto end.
+      * destruct (ful_goto false v c0 _ k r) as [[c' p'] flt] eqn:Hg. inversion Hs; subst.
+        match goal with |- stepk _ _ ?l0 _ _ _ => apply (S_ful_ok _ _ l0 v k key q r c0 h1 c' p' flt); auto end.
+      * inversion Hs; subst. match goal with |- stepk _ _ ?l0 _ _ _ => apply (S_ful_bad _ _ l0 v k key q r c0); auto end.
   - inversion Hs; subst. match goal with |- stepk _ _ ?l0 _ _ _ => apply (S_unlock _ _ l0 out); auto end.
 Qed.
 
-(* the history replayed through the sequential bodies `apply`: a section ended by a throwing copy
-   has no effect, a normal one has the effect and the return value of `apply` *)
+(* the history replayed through the sequential bodies `apply`: a section ended by a throwing copy has no
+   effect of its own, a normal one has the effect and the return value of `apply`; the entry of a
+   fulfillAllPromises call itself has no effect: what it did is logged, one setDelayedValue body per
+   promise, just before it *)
 Fixpoint replay (es : list (nat * op * outc)) (c : cont) : option cont :=
   match es with
   | [] => Some c
+  | (_, FulfillAll _, _) :: r => replay r c
   | (_, o, ORet rv) :: r =>
     let '(c', rv', flt) := apply o c in
     if (rv =? rv') && negb flt then replay r c' else None
@@ -986,17 +992,23 @@ Fixpoint replay (es : list (nat * op * outc)) (c : cont) : option cont :=
   end.
 Lemma replay_app a : forall b c, replay (a ++ b) c = match replay a c with Some c' => replay b c' | None => None end.
 Proof.
-  induction a as [|[[t o] out] r IH]; intros b c; cbn; [reflexivity|]. destruct out; [|reflexivity|apply IH].
-  destruct (apply o c) as [[c' rv'] flt]. destruct ((rv =? rv') && negb flt); [apply IH|reflexivity].
+  induction a as [|[[t o] out] r IH]; intros b c; cbn; [reflexivity|].
+  destruct o; try (apply IH); destruct out; try reflexivity; try (apply IH);
+    match goal with |- context [apply ?o0 c] => destruct (apply o0 c) as [[c' rv'] flt] end;
+    (destruct ((rv =? rv') && negb flt); [apply IH|reflexivity]).
 Qed.
-Lemma replay_ret hs c0 t o c' rv : replay hs cont0 = Some c0 -> apply o c0 = (c', rv, false) ->
-  replay (hs ++ [(t, o, ORet rv)]) cont0 = Some c'.
-Proof. intros H Ha. rewrite replay_app, H. cbn. rewrite Ha, Z.eqb_refl. reflexivity. Qed.
+Lemma replay_ret hs c0 t o c' rv : replay hs cont0 = Some c0 -> (forall v, o <> FulfillAll v) ->
+  apply o c0 = (c', rv, false) -> replay (hs ++ [(t, o, ORet rv)]) cont0 = Some c'.
+Proof.
+  intros H Hn Ha. rewrite replay_app, H. destruct o; cbn; try (rewrite Ha, Z.eqb_refl; reflexivity).
+  exfalso. eapply Hn; reflexivity.
+Qed.
 Lemma replay_exn hs c0 t o : replay hs cont0 = Some c0 -> replay (hs ++ [(t, o, OExn)]) cont0 = Some c0.
+Proof. intros H. rewrite replay_app, H. destruct o; reflexivity. Qed.
+Lemma replay_ful hs c0 t v out : replay hs cont0 = Some c0 -> replay (hs ++ [(t, FulfillAll v, out)]) cont0 = Some c0.
 Proof. intros H. rewrite replay_app, H. reflexivity. Qed.
 
 (* ---------- the invariant ---------- *)
-(* always *)
 Record Base (g : glob) (ls : list loc) : Prop := {
   (* mutual exclusion: the threads inside a critical section are exactly the owner of promiseLock *)
   B_owner : forall u, holds (pcof ls u) = true -> mtx g = Some u;
@@ -1004,22 +1016,24 @@ Record Base (g : glob) (ls : list loc) : Prop := {
   (* every future a client holds refers to an existing promise *)
   B_slots : forall u l i p, nth_error ls u = Some l -> nth_error (slots l) i = Some (Some p) ->
             (p < length (heap (ct g)))%nat;
-  (* fulfillAllPromises does not touch the pending maps before its final clear() *)
-  B_fpend : forall u v k key q r d c0, pcof ls u = P_ful v k key q r d c0 -> pend (ct g) true = pend c0 true
+  (* the loop over the int map does not touch the string map *)
+  B_fpend : forall u v key q r c0, pcof ls u = P_ful v false key q r c0 -> pend (ct g) true = pend c0 true
 }.
-(* as long as no fulfillAllPromises has been torn by a throwing copy *)
 Record Good (g : glob) (ls : list loc) : Prop := {
   G_nf : faulted g = false;
   G_flt : forall u, pcof ls u <> P_unlock OFault;
-  (* outside fulfillAllPromises: the container invariant, and the container is the sequential
-     composition of the completed critical sections *)
-  G_cinv : (forall u, is_ful (pcof ls u) = false) -> CInv (ct g) /\ replay (hist g) cont0 = Some (ct g);
-  (* inside: the container at the lock step c0 was fine, and running the rest of the loops
-     sequentially from here gives exactly apply (FulfillAll v) c0 *)
-  G_ful : forall u v k key q r d c0, pcof ls u = P_ful v k key q r d c0 ->
-          CInv c0 /\ replay (hist g) cont0 = Some c0 /\ (d = 0%nat -> ct g = c0) /\
-          (exists cf, apply (FulfillAll v) c0 = (cf, 0, false) /\ finish v k ((key, q) :: r) (ct g) = Some cf) /\
-          In (u, FulfillAll v) (began g);
+  (* the container invariant - also in the middle of fulfillAllPromises - and the container is the
+     sequential composition of the elementary bodies executed so far *)
+  G_cinv : CInv (ct g) /\ replay (hist g) cont0 = Some (ct g);
+  (* inside fulfillAllPromises: what is left of the current pending map starts at the iterator; the int map
+     is empty once the string loop runs; every promise that was unsatisfied when the lock was taken is
+     still unsatisfied or holds v *)
+  G_ful : forall u v k key q r c0, pcof ls u = P_ful v k key q r c0 ->
+          pend (ct g) k = (key, q) :: r /\ (k = true -> pend (ct g) false = []) /\
+          In (u, FulfillAll v) (began g) /\
+          (forall i ki keyi, nth_error (heap c0) i = Some (Cell ki keyi Unset) ->
+             nth_error (heap (ct g)) i = Some (Cell ki keyi Unset) \/
+             nth_error (heap (ct g)) i = Some (Cell ki keyi (SetV v)));
   (* inside setDelayedValue(const X&), before the copy: the key is pending *)
   G_call : forall u o, pcof ls u = P_call o -> In (u, o) (began g) /\
            exists k key v q, o = SetValue false k key v /\ afind key (pend (ct g) k) = Some q;
@@ -1027,907 +1041,15 @@ Record Good (g : glob) (ls : list loc) : Prop := {
   G_prov : forall q k key v, nth_error (heap (ct g)) q = Some (Cell k key (SetV v)) ->
            exists t, (exists mv, In (t, SetValue mv k key v) (began g)) \/ In (t, FulfillAll v) (began g)
 }.
-Definition Inv (g : glob) (ls : list loc) : Prop := Base g ls /\ (torn g = false -> Good g ls).
+Definition Inv (g : glob) (ls : list loc) : Prop := Base g ls /\ Good g ls.
 
 Lemma Inv_init ns pl progs : Inv (gl (init ns pl progs)) (thr (init ns pl progs)).
 Proof.
   assert (P : forall u, pcof (map (fun p => Loc p Idle (repeat None ns)) progs) u = Idle).
   { intros u. unfold pcof. rewrite nth_error_map. destruct (nth_error progs u); reflexivity. }
-  unfold init; cbn. split; [|intros _]; constructor; cbn; intros; rewrite ?P in *; try discriminate; auto.
+  unfold init; cbn. split; constructor; cbn; intros; rewrite ?P in *; try discriminate; auto.
   - exfalso. rewrite nth_error_map in H. destruct (nth_error progs u); [|discriminate]. inversion H; subst.
     cbn in H0. apply nth_error_In in H0. apply repeat_spec in H0. discriminate.
   - split; [apply CInv_init|reflexivity].
   - destruct q; discriminate.
-Qed.
-
-(* ---------- shape of the pcs produced by the lock step and by the loop ---------- *)
-Lemma ful_goto_cases v d c0 c k r c' p' flt : ful_goto v d c0 c k r = (c', p', flt) ->
-  (exists k' key q r', p' = P_ful v k' key q r' d c0 /\ c' = c /\ flt = false) \/
-  (p' = P_unlock (ORet 0) /\ flt = false /\ pend c' = (fun _ => []) /\ heap c' = heap c) \/
-  (p' = P_unlock OFault /\ c' = c /\ flt = true).
-Proof.
-  unfold ful_goto. destruct r as [|[key q] r'].
-  - destruct k; [intros H; inversion H; subst; right; left; auto|].
-    destruct (pend c true) as [|[key q] r']; [intros H; inversion H; subst; right; left; auto|].
-    destruct (is_unset (heap c) q); intros H; inversion H; subst; [left; eexists _, _, _, _; auto|right; right; auto].
-  - destruct (is_unset (heap c) q); intros H; inversion H; subst; [left; eexists _, _, _, _; auto|right; right; auto].
-Qed.
-Lemma enter_cases o c c' p' flt : enter o c = (c', p', flt) ->
-  (p' = P_call o /\ c' = c /\ flt = false) \/
-  (exists v k key q r, o = FulfillAll v /\ p' = P_ful v k key q r 0 c /\ c' = c /\ flt = false) \/
-  (exists out, p' = P_unlock out).
-Proof.
-  intros He. destruct o; cbn [enter] in He;
-    try (destruct (apply _ c) as [[c1 rv] fl]; inversion He; subst; right; right; eexists; reflexivity).
-  - destruct mv; [destruct (apply (SetValue true k key v) c) as [[c1 rv] fl]; inversion He; subst; right; right; eexists; reflexivity|].
-    destruct (afind key (pend c k)); [destruct (is_unset (heap c) n)|]; inversion He; subst;
-      [left; auto|right; right; eexists; reflexivity|right; right; eexists; reflexivity].
-  - destruct (ful_goto_cases _ _ _ _ _ _ _ _ _ He) as [[k' [key [q [r' [-> [-> ->]]]]]]|[[-> _]|[-> _]]].
-    + right; left. exists v, k', key, q, r'. auto.
-    + right; right. eexists; reflexivity.
-    + right; right. eexists; reflexivity.
-Qed.
-Lemma enter_holds o c c' p' flt : enter o c = (c', p', flt) -> holds p' = true.
-Proof.
-  intros He. destruct (enter_cases _ _ _ _ _ He) as [[-> _]|[[v [k [key [q [r [_ [-> _]]]]]]]|[out ->]]]; reflexivity.
-Qed.
-Lemma ful_goto_holds v d c0 c k r c' p' flt : ful_goto v d c0 c k r = (c', p', flt) -> holds p' = true.
-Proof.
-  intros He. destruct (ful_goto_cases _ _ _ _ _ _ _ _ _ He) as [[k' [key [q [r' [-> _]]]]]|[[-> _]|[-> _]]]; reflexivity.
-Qed.
-
-(* ---------- ownership of the mutex ---------- *)
-Definition Own (m : option nat) (ls : list loc) : Prop :=
-  (forall u, holds (pcof ls u) = true -> m = Some u) /\ (forall a, m = Some a -> holds (pcof ls a) = true).
-Lemma own_same m ls t l l' : Own m ls -> nth_error ls t = Some l -> holds (at_ l') = holds (at_ l) -> Own m (upd ls t l').
-Proof.
-  intros [HO HH] Hl Hh. pose proof (pcof_at _ _ _ Hl) as Hp. split.
-  - intros u. rewrite (pcof_upd _ _ _ _ _ Hl). destruct (Nat.eqb_spec u t) as [->|]; [|apply HO].
-    rewrite Hh, <- Hp. apply HO.
-  - intros a Hm. rewrite (pcof_upd _ _ _ _ _ Hl). destruct (Nat.eqb_spec a t) as [->|]; [|apply HH; exact Hm].
-    rewrite Hh, <- Hp. apply HH. exact Hm.
-Qed.
-Lemma own_lock ls t l l' : Own None ls -> nth_error ls t = Some l -> holds (at_ l') = true -> Own (Some t) (upd ls t l').
-Proof.
-  intros [HO HH] Hl Hh. split.
-  - intros u. rewrite (pcof_upd _ _ _ _ _ Hl). destruct (Nat.eqb_spec u t) as [->|]; [reflexivity|].
-    intros Hu. specialize (HO _ Hu). discriminate.
-  - intros a Hm. inversion Hm; subst. rewrite (pcof_upd _ _ _ _ _ Hl), Nat.eqb_refl. exact Hh.
-Qed.
-Lemma own_unlock m ls t l l' : Own m ls -> nth_error ls t = Some l -> holds (at_ l) = true -> holds (at_ l') = false ->
-  Own None (upd ls t l').
-Proof.
-  intros [HO HH] Hl Hh Hh'. pose proof (pcof_at _ _ _ Hl) as Hp. split.
-  - intros u. rewrite (pcof_upd _ _ _ _ _ Hl). destruct (Nat.eqb_spec u t) as [->|Hne]; [congruence|].
-    intros Hu. exfalso. apply Hne. pose proof (HO _ Hu) as E1. rewrite <- Hp in Hh. pose proof (HO _ Hh) as E2. congruence.
-  - discriminate.
-Qed.
-(* somebody else inside a section excludes t from taking a step that needs or takes the lock *)
-Lemma own_unique m ls t u : Own m ls -> holds (pcof ls t) = true -> holds (pcof ls u) = true -> u = t.
-Proof. intros [HO _] H1 H2. pose proof (HO _ H1). pose proof (HO _ H2). congruence. Qed.
-
-Lemma drop_length q h : length (drop q h) = length h.
-Proof. destruct (drop_spec q h) as [[k [key [_ [_ [E _]]]]]|[_ E]]; [exact E|rewrite E; reflexivity]. Qed.
-Lemma enter_get_length k key sl c c' p' flt : enter (GetFuture k key sl) c = (c', p', flt) ->
-  length (heap c') = S (length (heap c)).
-Proof.
-  cbn [enter apply]. intros H; inversion H; subst. cbn [heap].
-  destruct (afind key (pend c k)); cbn [drop_opt]; rewrite ?drop_length, app_length; cbn; lia.
-Qed.
-
-(* which steps change the container: only those of a thread that takes or owns the lock *)
-Lemma stepk_ct t g l g' l' es : stepk t g l g' l' es ->
-  ct g' = ct g \/ (at_ l <> Idle /\ (mtx g = None \/ holds (at_ l) = true)).
-Proof.
-  intros H. destruct H; cbn [ct]; auto; right.
-  all: match goal with Ha : at_ _ = _ |- _ => rewrite Ha end; split; try discriminate; auto.
-Qed.
-Lemma stepk_hle t g l g' l' es : stepk t g l g' l' es -> hle (heap (ct g)) (heap (ct g')).
-Proof.
-  intros H. destruct H; cbn [ct]; try apply hle_refl.
-  - eapply enter_hle; eauto.
-  - eapply apply_hle; eauto.
-  - rewrite (ful_goto_heap _ _ _ _ _ _ _ _ _ H2). eapply iter_hle; eauto.
-Qed.
-
-Lemma Base_step t g ls l g' l' es : Base g ls -> nth_error ls t = Some l -> stepk t g l g' l' es -> Base g' (upd ls t l').
-Proof.
-  intros [HO HH HSL HFP] Hl Hs.
-  pose proof (pcof_at _ _ _ Hl) as Hp.
-  pose proof (hle_length _ _ (stepk_hle _ _ _ _ _ _ Hs)) as Hlen.
-  assert (HOwn : Own (mtx g) ls) by (split; assumption).
-  (* slots: nobody's futures move, except the one getFuture just delivered *)
-  assert (Hslots : (forall i p, nth_error (slots l') i = Some (Some p) -> (p < length (heap (ct g')))%nat) ->
-            forall u l0 i p, nth_error (upd ls t l') u = Some l0 -> nth_error (slots l0) i = Some (Some p) ->
-              (p < length (heap (ct g')))%nat).
-  { intros Hown u l0 i p Hu Hi. destruct (nth_upd _ _ _ _ _ Hu) as [[-> [-> _]]|[_ Hu']]; [eapply Hown; eauto|].
-    specialize (HSL _ _ _ _ Hu' Hi). lia. }
-  assert (Hsl_same : slots l' = slots l ->
-            forall i p, nth_error (slots l') i = Some (Some p) -> (p < length (heap (ct g')))%nat).
-  { intros E i p Hi. rewrite E in Hi. specialize (HSL _ _ _ _ Hl Hi). lia. }
-  (* a loop of somebody else keeps its snapshot of the string map: t cannot touch the container *)
-  assert (Hfp_other : forall u v k key q r d c0, u <> t -> pcof ls u = P_ful v k key q r d c0 ->
-            pend (ct g') true = pend c0 true).
-  { intros u v k key q r d c0 Hne Hu. rewrite <- (HFP _ _ _ _ _ _ _ _ Hu).
-    destruct (stepk_ct _ _ _ _ _ _ Hs) as [->|[_ [Hm|Hh]]]; [reflexivity| |].
-    - assert (holds (pcof ls u) = true) as Hhu by (rewrite Hu; reflexivity). specialize (HO _ Hhu). congruence.
-    - exfalso. apply Hne. eapply own_unique; eauto; [rewrite Hp; exact Hh|rewrite Hu; reflexivity]. }
-  assert (Hfp : (forall v k key q r d c0, at_ l' = P_ful v k key q r d c0 -> pend (ct g') true = pend c0 true) ->
-            forall u v k key q r d c0, pcof (upd ls t l') u = P_ful v k key q r d c0 -> pend (ct g') true = pend c0 true).
-  { intros Hown u v k key q r d c0. rewrite (pcof_upd _ _ _ _ _ Hl). destruct (Nat.eqb_spec u t) as [->|Hne].
-    - apply Hown.
-    - apply Hfp_other. exact Hne. }
-  destruct Hs.
-  - destruct (own_same _ _ _ _ (Loc r (P_lock o) (slots l)) HOwn Hl) as [A B]; [rewrite H; reflexivity|].
-    constructor; cbn [mtx ct]; auto; [apply Hslots; apply Hsl_same; reflexivity|apply Hfp; cbn; intros; discriminate].
-  - destruct (own_same _ _ _ _ (Loc r Idle (slots l)) HOwn Hl) as [A B]; [rewrite H; reflexivity|].
-    constructor; cbn [mtx ct]; auto; [apply Hslots; apply Hsl_same; reflexivity|apply Hfp; cbn; intros; discriminate].
-  - rewrite H0 in HOwn.
-    destruct (own_lock _ _ _ (Loc (prog l) p' (new_slots o g l)) HOwn Hl) as [A B]; [eapply enter_holds; eauto|].
-    constructor; cbn [mtx ct]; auto.
-    + apply Hslots. cbn [slots ct]. unfold new_slots. destruct o; try (apply Hsl_same; reflexivity).
-      intros i p Hi. cbn [ct] in *. rewrite (enter_get_length _ _ _ _ _ _ _ H1).
-      destruct (nth_upd _ _ _ _ _ Hi) as [[_ [E _]]|[_ Hi']]; [inversion E; lia|].
-      specialize (HSL _ _ _ _ Hl Hi'). lia.
-    + apply Hfp. cbn [at_ ct]. intros v k key q r d c0 E.
-      destruct (enter_cases _ _ _ _ _ H1) as [[-> _]|[[v0 [k0 [key0 [q0 [r0 [_ [-> [-> _]]]]]]]]|[out ->]]]; try discriminate.
-      inversion E; subst. reflexivity.
-  - destruct (own_same _ _ _ _ (Loc (prog l) (P_unlock OExn) (slots l)) HOwn Hl) as [A B]; [rewrite H; reflexivity|].
-    constructor; cbn [mtx ct]; auto; [apply Hslots; apply Hsl_same; reflexivity|apply Hfp; cbn; intros; discriminate].
-  - destruct (own_same _ _ _ _ (Loc (prog l) (P_unlock (out_of rv flt)) (slots l)) HOwn Hl) as [A B]; [rewrite H; reflexivity|].
-    constructor; cbn [mtx ct]; auto; [apply Hslots; apply Hsl_same; reflexivity|apply Hfp; cbn; intros; discriminate].
-  - destruct (own_same _ _ _ _ (Loc (prog l) (P_unlock OExn) (slots l)) HOwn Hl) as [A B]; [rewrite H; reflexivity|].
-    constructor; cbn [mtx ct]; auto; [apply Hslots; apply Hsl_same; reflexivity|apply Hfp; cbn; intros; discriminate].
-  - destruct (own_same _ _ _ _ (Loc (prog l) (P_unlock OFault) (slots l)) HOwn Hl) as [A B]; [rewrite H; reflexivity|].
-    constructor; cbn [mtx ct]; auto; [apply Hslots; apply Hsl_same; reflexivity|apply Hfp; cbn; intros; discriminate].
-  - destruct (own_same _ _ _ _ (Loc (prog l) p' (slots l)) HOwn Hl) as [A B];
-      [rewrite H; cbn; eapply ful_goto_holds; eauto|].
-    constructor; cbn [mtx ct]; auto; [apply Hslots; apply Hsl_same; reflexivity|].
-    apply Hfp. cbn [at_ ct]. intros v0 k0 key0 q0 r0 d0 c1 E.
-    destruct (ful_goto_cases _ _ _ _ _ _ _ _ _ H2) as [[k' [key' [q' [r' [-> [-> _]]]]]]|[[-> _]|[-> _]]]; try discriminate.
-    inversion E; subst. unfold iter; cbn [pend]. eapply (HFP t). rewrite Hp. exact H.
-  - destruct (own_unlock _ _ _ _ (Loc (prog l) Idle (slots l)) HOwn Hl) as [A B]; [rewrite H; reflexivity|reflexivity|].
-    constructor; cbn [mtx ct]; auto; [apply Hslots; apply Hsl_same; reflexivity|apply Hfp; cbn; intros; discriminate].
-Qed.
-
-(* ---------- preservation of Good ---------- *)
-Lemma others_idle g ls t l u : Base g ls -> nth_error ls t = Some l -> (mtx g = None \/ holds (at_ l) = true) ->
-  u <> t -> holds (pcof ls u) = false.
-Proof.
-  intros HB Hl Hc Hne. destruct (holds (pcof ls u)) eqn:Hu; [exfalso|reflexivity].
-  pose proof (B_owner _ _ HB _ Hu) as Hm. destruct Hc as [Hn|Hh]; [congruence|].
-  apply Hne. eapply (own_unique (mtx g) ls t u); [split; [apply (B_owner _ _ HB)|apply (B_held _ _ HB)]| |exact Hu].
-  rewrite (pcof_at _ _ _ Hl). exact Hh.
-Qed.
-Lemma noful g ls t l : Base g ls -> nth_error ls t = Some l -> (mtx g = None \/ holds (at_ l) = true) ->
-  is_ful (at_ l) = false -> forall u, is_ful (pcof ls u) = false.
-Proof.
-  intros HB Hl Hc Hf u. destruct (Nat.eq_dec u t) as [->|Hne]; [rewrite (pcof_at _ _ _ Hl); exact Hf|].
-  pose proof (others_idle _ _ _ _ u HB Hl Hc Hne) as Hh. destruct (pcof ls u); try reflexivity; discriminate.
-Qed.
-
-(* a step of a thread that does not own the lock and does not touch the shared state *)
-Lemma Good_passive g ls t l l' : Good g ls -> nth_error ls t = Some l ->
-  holds (at_ l) = false -> holds (at_ l') = false -> Good g (upd ls t l').
-Proof.
-  intros [HNF HFL HCI HFU HCA HPV] Hl Hh Hh'. pose proof (pcof_at _ _ _ Hl) as Hp.
-  constructor; auto.
-  - intros u. rewrite (pcof_upd _ _ _ _ _ Hl). destruct (Nat.eqb_spec u t); [|apply HFL].
-    intros E. rewrite E in Hh'. discriminate.
-  - intros Hall. apply HCI. intros u. destruct (Nat.eq_dec u t) as [E|Hne].
-    + subst u. rewrite Hp. destruct (at_ l); try reflexivity; discriminate.
-    + specialize (Hall u). rewrite (pcof_upd _ _ _ _ _ Hl) in Hall.
-      destruct (Nat.eqb_spec u t); [contradiction|exact Hall].
-  - intros u v k key q r d c0. rewrite (pcof_upd _ _ _ _ _ Hl). destruct (Nat.eqb_spec u t); [|apply HFU].
-    intros E. rewrite E in Hh'. discriminate.
-  - intros u o. rewrite (pcof_upd _ _ _ _ _ Hl). destruct (Nat.eqb_spec u t); [|apply HCA].
-    intros E. rewrite E in Hh'. discriminate.
-Qed.
-
-(* a step of the thread that takes or owns the lock: only its own pc matters *)
-Lemma Good_build g g' ls t l l' : Base g ls -> nth_error ls t = Some l -> (mtx g = None \/ holds (at_ l) = true) ->
-  faulted g' = false -> at_ l' <> P_unlock OFault ->
-  (is_ful (at_ l') = false -> CInv (ct g') /\ replay (hist g') cont0 = Some (ct g')) ->
-  (forall v k key q r d c0, at_ l' = P_ful v k key q r d c0 ->
-     CInv c0 /\ replay (hist g') cont0 = Some c0 /\ (d = 0%nat -> ct g' = c0) /\
-     (exists cf, apply (FulfillAll v) c0 = (cf, 0, false) /\ finish v k ((key, q) :: r) (ct g') = Some cf) /\
-     In (t, FulfillAll v) (began g')) ->
-  (forall o, at_ l' = P_call o -> In (t, o) (began g') /\
-     exists k key v q, o = SetValue false k key v /\ afind key (pend (ct g') k) = Some q) ->
-  (forall q k key v, nth_error (heap (ct g')) q = Some (Cell k key (SetV v)) ->
-     exists t0, (exists mv, In (t0, SetValue mv k key v) (began g')) \/ In (t0, FulfillAll v) (began g')) ->
-  Good g' (upd ls t l').
-Proof.
-  intros HB Hl Hc Hnf Hfl Hci Hfu Hca Hpv.
-  assert (Hoth : forall u, u <> t -> holds (pcof (upd ls t l') u) = false).
-  { intros u Hne. rewrite (pcof_upd _ _ _ _ _ Hl). destruct (Nat.eqb_spec u t); [contradiction|].
-    eapply others_idle; eauto. }
-  constructor; auto.
-  - intros u. destruct (Nat.eq_dec u t) as [->|Hne].
-    + rewrite (pcof_upd _ _ _ _ _ Hl), Nat.eqb_refl. exact Hfl.
-    + intros E. specialize (Hoth _ Hne). rewrite E in Hoth. discriminate.
-  - intros Hall. apply Hci. specialize (Hall t). rewrite (pcof_upd _ _ _ _ _ Hl), Nat.eqb_refl in Hall. exact Hall.
-  - intros u v k key q r d c0. destruct (Nat.eq_dec u t) as [->|Hne].
-    + rewrite (pcof_upd _ _ _ _ _ Hl), Nat.eqb_refl. apply Hfu.
-    + intros E. specialize (Hoth _ Hne). rewrite E in Hoth. discriminate.
-  - intros u o. destruct (Nat.eq_dec u t) as [->|Hne].
-    + rewrite (pcof_upd _ _ _ _ _ Hl), Nat.eqb_refl. apply Hca.
-    + intros E. specialize (Hoth _ Hne). rewrite E in Hoth. discriminate.
-Qed.
-
-Lemma prov_mono (b : list (nat * op)) x k key v :
-  (exists t0, (exists mv, In (t0, SetValue mv k key v) b) \/ In (t0, FulfillAll v) b) ->
-  exists t0, (exists mv, In (t0, SetValue mv k key v) (b ++ x)) \/ In (t0, FulfillAll v) (b ++ x).
-Proof. intros [t0 [[mv H]|H]]; exists t0; [left; exists mv|right]; apply in_or_app; auto. Qed.
-
-Lemma Good_step t g ls l g' l' es : Base g ls -> Good g ls -> nth_error ls t = Some l ->
-  stepk t g l g' l' es -> torn g' = false -> Good g' (upd ls t l').
-Proof.
-  intros HB HG Hl Hs Htorn. pose proof (pcof_at _ _ _ Hl) as Hp.
-  pose proof HG as [HNF HFL HCI HFU HCA HPV].
-  destruct Hs.
-  - (* invoke *) apply Good_passive with (l := l); auto; rewrite ?H; reflexivity.
-  - (* observe *) apply Good_passive with (l := l); auto; rewrite ?H; reflexivity.
-  - (* lock *)
-    assert (Hnful : is_ful (at_ l) = false) by (rewrite H; reflexivity).
-    destruct (HCI (noful _ _ _ _ HB Hl (or_introl H0) Hnful)) as [HC HR].
-    destruct (enter_spec _ _ _ _ _ HC H1) as [-> Hcases].
-    apply Good_build with (g := g) (l := l); auto; cbn [faulted ct hist began at_].
-    + rewrite HNF. reflexivity.
-    + destruct Hcases as [[k [key [v [q [_ [-> _]]]]]]|[[rv [-> _]]|[v [k [key [q [r [cf [_ [-> _]]]]]]]]]]; discriminate.
-    + intros Hnf. destruct Hcases as [[k [key [v [q [_ [-> [-> _]]]]]]]|[[rv [-> Ha]]|[v [k [key [q [r [cf [_ [-> _]]]]]]]]]].
-      * cbn [log_out]. auto.
-      * cbn [log_out]. split; [apply (apply_CInv _ _ _ _ _ HC Ha)|eapply replay_ret; eauto].
-      * discriminate.
-    + intros v k key q r d c0 E.
-      destruct Hcases as [[k1 [key1 [v1 [q1 [_ [-> _]]]]]]|[[rv [-> _]]|[v1 [k1 [key1 [q1 [r1 [cf [-> [-> [-> [Ha Hf]]]]]]]]]]]]; try discriminate.
-      inversion E; subst. cbn [log_out]. refine (conj HC (conj HR (conj (fun _ => eq_refl) (conj _ _)))).
-      * exists cf. auto.
-      * apply in_or_app. right. left. reflexivity.
-    + intros o0 E.
-      destruct Hcases as [[k1 [key1 [v1 [q1 [Ho [-> [-> Hf]]]]]]]|[[rv [-> _]]|[v1 [k1 [key1 [q1 [r1 [cf [_ [-> _]]]]]]]]]]; try discriminate.
-      inversion E; subst o0. split; [apply in_or_app; right; left; reflexivity|]. exists k1, key1, v1, q1. auto.
-    + intros q k key v Hq.
-      destruct Hcases as [[k1 [key1 [v1 [q1 [_ [_ [-> _]]]]]]]|[[rv [_ Ha]]|[v1 [k1 [key1 [q1 [r1 [cf [_ [_ [-> _]]]]]]]]]]].
-      * apply prov_mono. apply (HPV _ _ _ _ Hq).
-      * destruct (apply_prov _ _ _ _ _ _ _ _ _ HC Ha Hq) as [Hold|[_ [[mv ->]| ->]]].
-        -- apply prov_mono. apply (HPV _ _ _ _ Hold).
-        -- exists t. left. exists mv. apply in_or_app. right. left. reflexivity.
-        -- exists t. right. apply in_or_app. right. left. reflexivity.
-      * apply prov_mono. apply (HPV _ _ _ _ Hq).
-  - (* a copy in setDelayedValue throws: nothing changed *)
-    assert (Hh : holds (at_ l) = true) by (rewrite H; reflexivity).
-    assert (Hnful : is_ful (at_ l) = false) by (rewrite H; reflexivity).
-    destruct (HCI (noful _ _ _ _ HB Hl (or_intror Hh) Hnful)) as [HC HR].
-    apply Good_build with (g := g) (l := l); auto; cbn [faulted ct hist began at_]; try discriminate.
-    intros _. split; [exact HC|eapply replay_exn; eauto].
-  - (* the copy in setDelayedValue succeeds: the rest of the body *)
-    assert (Hh : holds (at_ l) = true) by (rewrite H; reflexivity).
-    assert (Hnful : is_ful (at_ l) = false) by (rewrite H; reflexivity).
-    destruct (HCI (noful _ _ _ _ HB Hl (or_intror Hh) Hnful)) as [HC HR].
-    destruct (apply_CInv _ _ _ _ _ HC H1) as [HC' ->].
-    assert (Hb : In (t, o) (began g)) by (apply (HCA t o); rewrite Hp; exact H).
-    apply Good_build with (g := g) (l := l); auto; cbn [faulted ct hist began at_ out_of log_out]; try discriminate.
-    + rewrite HNF. reflexivity.
-    + intros _. split; [exact HC'|eapply replay_ret; eauto].
-    + intros q k key v Hq. destruct (apply_prov _ _ _ _ _ _ _ _ _ HC H1 Hq) as [Hold|[_ [[mv ->]| ->]]].
-      * apply (HPV _ _ _ _ Hold).
-      * exists t. left. exists mv. exact Hb.
-      * exists t. right. exact Hb.
-  - (* a copy in fulfillAllPromises throws before anything was satisfied *)
-    cbn [torn] in Htorn. apply orb_false_iff in Htorn. destruct Htorn as [_ Hd].
-    apply negb_false_iff in Hd. apply Nat.eqb_eq in Hd. subst done.
-    destruct (HFU t v k key q r 0%nat c0 (eq_trans Hp H)) as [HC0 [HR [Hct _]]]. specialize (Hct eq_refl).
-    apply Good_build with (g := g) (l := l); auto; cbn [faulted ct hist began at_]; try discriminate.
-    + right. rewrite H. reflexivity.
-    + intros _. rewrite Hct. split; [exact HC0|eapply replay_exn; eauto].
-  - (* impossible: the promise at the iterator can be set *)
-    exfalso. destruct (HFU t v k key q r done c0 (eq_trans Hp H)) as [_ [_ [_ [[cf [_ Hf]] _]]]].
-    destruct (finish_step _ _ _ _ _ _ _ Hf) as [h1 [E _]]. congruence.
-  - (* one more promise satisfied *)
-    assert (Hh : holds (at_ l) = true) by (rewrite H; reflexivity).
-    destruct (HFU t v k key q r done c0 (eq_trans Hp H)) as [HC0 [HR [_ [[cf [Hap Hf]] Hb]]]].
-    destruct (finish_step _ _ _ _ _ _ _ Hf) as [h1' [E Hf']]. rewrite H1 in E. inversion E; subst h1'. clear E.
-    pose proof (ful_goto_heap _ _ _ _ _ _ _ _ _ H2) as Hheap.
-    destruct (ful_goto_spec _ _ _ _ _ _ _ _ _ _ Hf' H2) as [-> Hcases].
-    apply Good_build with (g := g) (l := l); auto; cbn [faulted ct hist began at_].
-    + rewrite HNF. reflexivity.
-    + destruct Hcases as [[k' [key' [q' [r' [-> _]]]]]|[-> _]]; discriminate.
-    + intros Hnf. destruct Hcases as [[k' [key' [q' [r' [-> _]]]]]|[-> ->]]; [discriminate|].
-      cbn [log_out]. split; [apply (apply_CInv _ _ _ _ _ HC0 Hap)|eapply replay_ret; eauto].
-    + intros v0 k0 key0 q0 r0 d0 c1 E.
-      destruct Hcases as [[k' [key' [q' [r' [-> [-> Hf'']]]]]]|[-> _]]; [|discriminate].
-      inversion E; subst. cbn [log_out]. refine (conj HC0 (conj HR (conj _ (conj _ Hb)))); [discriminate|exists cf; auto].
-    + intros o0 E. destruct Hcases as [[k' [key' [q' [r' [-> _]]]]]|[-> _]]; discriminate.
-    + intros i k0 key0 w Hq. rewrite Hheap in Hq.
-      destruct (iter_heap _ _ _ _ _ _ (or_intror I) H1 _ _ _ _ Hq) as [Hold|[_ ->]]; [apply (HPV _ _ _ _ Hold)|].
-      exists t. right. exact Hb.
-  - (* unlock *)
-    assert (Hh : holds (at_ l) = true) by (rewrite H; reflexivity).
-    assert (Hnful : is_ful (at_ l) = false) by (rewrite H; reflexivity).
-    destruct (HCI (noful _ _ _ _ HB Hl (or_intror Hh) Hnful)) as [HC HR].
-    apply Good_build with (g := g) (l := l); auto; cbn [faulted ct hist began at_]; try discriminate.
-Qed.
-
-Lemma stepk_torn t g l g' l' es : stepk t g l g' l' es -> torn g' = false -> torn g = false.
-Proof. intros H. destruct H; cbn [torn]; auto. intros E. apply orb_false_iff in E. tauto. Qed.
-
-Lemma Inv_step : forall g ls t c l g' l' es,
-  Inv g ls -> nth_error ls t = Some l -> tstep t c g l = Some (g', l', es) -> Inv g' (upd ls t l').
-Proof.
-  intros g ls t c l g' l' es [HB HG] Hl Hs. apply tstep_stepk in Hs. split.
-  - eapply Base_step; eauto.
-  - intros Ht. eapply Good_step; eauto. apply HG. eapply stepk_torn; eauto.
-Qed.
-
-(* ====================================================================== *)
-(* reachable states and the C18 lemmas                                     *)
-(* ====================================================================== *)
-(* ns future slots per client, pl = the throw plan (indices of the copies of X that throw) *)
-Definition R (ns : nat) (pl : list Z) (progs : list (list op)) (s : sysD) : Prop :=
-  reachable glob loc tstep (init ns pl progs) s.
-(* no fulfillAllPromises is in progress *)
-Definition calm (s : sysD) : Prop := forall u, is_ful (pcof (thr s) u) = false.
-
-Lemma R_inv ns pl progs s : R ns pl progs s -> Inv (gl s) (thr s).
-Proof. intros H. eapply reachable_inv; [apply Inv_step|apply Inv_init|exact H]. Qed.
-Lemma R_base ns pl progs s : R ns pl progs s -> Base (gl s) (thr s).
-Proof. intros H. apply (R_inv _ _ _ _ H). Qed.
-Lemma R_good ns pl progs s : R ns pl progs s -> torn (gl s) = false -> Good (gl s) (thr s).
-Proof. intros H. apply (R_inv _ _ _ _ H). Qed.
-Lemma R_cinv ns pl progs s : R ns pl progs s -> torn (gl s) = false -> calm s -> CInv (ct (gl s)).
-Proof. intros H Ht Hc. apply (G_cinv _ _ (R_good _ _ _ _ H Ht) Hc). Qed.
-Lemma free_calm ns pl progs s : R ns pl progs s -> mtx (gl s) = None -> calm s.
-Proof.
-  intros H Hm u. destruct (is_ful (pcof (thr s) u)) eqn:E; [exfalso|reflexivity].
-  assert (holds (pcof (thr s) u) = true) as Hh by (destruct (pcof (thr s) u); try discriminate; reflexivity).
-  pose proof (B_owner _ _ (R_base _ _ _ _ H) _ Hh). congruence.
-Qed.
-Lemma R_plan ns pl progs s : R ns pl progs s -> plan (gl s) = pl.
-Proof.
-  intros H. refine (reachable_inv glob loc tstep (fun g _ => plan g = pl) _ (init ns pl progs) s eq_refl H).
-  intros g ls t c l g' l' es Hg Hl Hs. apply tstep_stepk in Hs. destruct Hs; cbn [plan]; exact Hg.
-Qed.
-
-(* ---------- do_never_twice ---------- *)
-Lemma never_twice ns pl progs s : R ns pl progs s -> torn (gl s) = false ->
-  faulted (gl s) = false /\ (calm s -> CInv (ct (gl s))).
-Proof. intros HR Ht. split; [apply (G_nf _ _ (R_good _ _ _ _ HR Ht))|apply R_cinv with ns pl progs; auto]. Qed.
-
-(* copies that never throw never tear *)
-Lemma nothrow_never_torn ns progs s : R ns [] progs s -> torn (gl s) = false.
-Proof.
-  intros H.
-  refine (proj2 (reachable_inv glob loc tstep (fun g _ => plan g = [] /\ torn g = false) _ (init ns [] progs) s (conj eq_refl eq_refl) H)).
-  intros g ls t c l g' l' es [Hp Ht] Hl Hs. apply tstep_stepk in Hs. destruct Hs; cbn [plan torn]; auto.
-  unfold throws in H1. rewrite Hp in H1. discriminate.
-Qed.
-
-Definition fault_ev : ev := E K_FAULT 0 1.
-Lemma no_fault_event ns pl progs s t c l g' l' es :
-  R ns pl progs s -> torn (gl s) = false -> nth_error (thr s) t = Some l ->
-  tstep t c (gl s) l = Some (g', l', es) -> ~ In fault_ev es.
-Proof.
-  intros HR Ht Hl Hs Hin. pose proof (G_flt _ _ (R_good _ _ _ _ HR Ht) t) as Hf. rewrite (pcof_at _ _ _ Hl) in Hf.
-  apply tstep_stepk in Hs. destruct Hs; cbn in Hin;
-    repeat (destruct Hin as [Hin|Hin]; try discriminate); try contradiction.
-  destruct out; cbn in Hin; repeat (destruct Hin as [Hin|Hin]; try discriminate); try contradiction.
-Qed.
-
-(* ---------- do_stable: a satisfied (or broken) promise never changes again ---------- *)
-Lemma step_hle (s : sysD) tc : hle (heap (ct (gl s))) (heap (ct (gl (stepD s tc)))).
-Proof.
-  unfold step, sys_step. destruct tc as [t c].
-  destruct (nth_error (thr s) t) as [l|] eqn:Hl; [|apply hle_refl].
-  destruct (tstep t c (gl s) l) as [[[g' l'] es]|] eqn:Hs; [|apply hle_refl]. cbn [fst gl].
-  eapply stepk_hle. eapply tstep_stepk. exact Hs.
-Qed.
-Lemma run_hle sched : forall s : sysD, hle (heap (ct (gl s))) (heap (ct (gl (runD s sched)))).
-Proof.
-  apply (run_rel glob loc tstep (fun a b => hle (heap (ct (gl a))) (heap (ct (gl b))))).
-  - intros; apply hle_refl.
-  - intros a b c0; apply hle_trans.
-  - apply step_hle.
-Qed.
-Lemma stable (s s' : sysD) q k key st :
-  reachable glob loc tstep s s' -> nth_error (heap (ct (gl s))) q = Some (Cell k key st) -> st <> Unset ->
-  nth_error (heap (ct (gl s'))) q = Some (Cell k key st).
-Proof.
-  intros [sc ->] Hq Hne. destruct (run_hle sc s _ _ _ _ Hq) as [st' [E F]]. rewrite (F Hne) in E. exact E.
-Qed.
-Lemma stable_get (s s' : sysD) p : reachable glob loc tstep s s' ->
-  fut_ready (heap (ct (gl s))) (Some p) = 1 ->
-  fut_ready (heap (ct (gl s'))) (Some p) = 1 /\
-  fut_get (heap (ct (gl s'))) (Some p) = fut_get (heap (ct (gl s))) (Some p).
-Proof.
-  intros Hr H1. cbn [fut_get fut_ready] in *.
-  destruct (nth_error (heap (ct (gl s))) p) as [[k key st]|] eqn:E; [|discriminate].
-  destruct st; [discriminate| |]; rewrite (stable s s' _ _ _ _ Hr E); try discriminate; auto.
-Qed.
-
-(* ---------- the value a future gets ---------- *)
-(* a thread about to enter / inside a section sees the container invariant *)
-Lemma section_cinv ns pl progs s t l : R ns pl progs s -> torn (gl s) = false -> nth_error (thr s) t = Some l ->
-  is_ful (at_ l) = false -> (mtx (gl s) = None \/ holds (at_ l) = true) ->
-  CInv (ct (gl s)) /\ replay (hist (gl s)) cont0 = Some (ct (gl s)).
-Proof.
-  intros HR Ht Hl Hnf Hc. apply (G_cinv _ _ (R_good _ _ _ _ HR Ht)).
-  eapply noful; eauto. apply (R_base _ _ _ _ HR).
-Qed.
-
-(* setDelayedValue(key, X&&): the lock step does everything *)
-Lemma set_wins_move ns pl progs s t c l g' l' es k key v q :
-  R ns pl progs s -> torn (gl s) = false -> nth_error (thr s) t = Some l -> at_ l = P_lock (SetValue true k key v) ->
-  tstep t c (gl s) l = Some (g', l', es) -> afind key (pend (ct (gl s)) k) = Some q ->
-  nth_error (heap (ct (gl s))) q = Some (Cell k key Unset) /\
-  nth_error (heap (ct g')) q = Some (Cell k key (SetV v)) /\
-  (forall q', q' <> q -> nth_error (heap (ct g')) q' = nth_error (heap (ct (gl s))) q') /\
-  at_ l' = P_unlock (ORet 0).
-Proof.
-  intros HR Ht Hl Ha Hs Hf. apply tstep_stepk in Hs. destruct Hs; try congruence.
-  rewrite Ha in H. inversion H; subst o.
-  assert (Hnf : is_ful (at_ l) = false) by (rewrite Ha; reflexivity).
-  destruct (section_cinv _ _ _ _ _ _ HR Ht Hl Hnf (or_introl H0)) as [HC _].
-  destruct (apply_set_pending _ true _ _ v _ HC Hf) as [c1 [Hap [H2 [H3 H4]]]].
-  cbn [enter] in H1. rewrite Hap in H1. inversion H1; subst. cbn [ct at_ out_of]. auto.
-Qed.
-(* setDelayedValue(key, const X&): the step of the (non-throwing) copy does it *)
-Lemma set_wins_copy ns pl progs s t c l g' l' es k key v q :
-  R ns pl progs s -> torn (gl s) = false -> nth_error (thr s) t = Some l -> at_ l = P_call (SetValue false k key v) ->
-  throws (gl s) = false ->
-  tstep t c (gl s) l = Some (g', l', es) -> afind key (pend (ct (gl s)) k) = Some q ->
-  nth_error (heap (ct (gl s))) q = Some (Cell k key Unset) /\
-  nth_error (heap (ct g')) q = Some (Cell k key (SetV v)) /\
-  (forall q', q' <> q -> nth_error (heap (ct g')) q' = nth_error (heap (ct (gl s))) q') /\
-  at_ l' = P_unlock (ORet 0).
-Proof.
-  intros HR Ht Hl Ha Hth Hs Hf. apply tstep_stepk in Hs. destruct Hs; try congruence.
-  rewrite Ha in H. inversion H; subst o.
-  assert (Hnf : is_ful (at_ l) = false) by (rewrite Ha; reflexivity).
-  assert (Hh : holds (at_ l) = true) by (rewrite Ha; reflexivity).
-  destruct (section_cinv _ _ _ _ _ _ HR Ht Hl Hnf (or_intror Hh)) as [HC _].
-  destruct (apply_set_pending _ false _ _ v _ HC Hf) as [c1 [Hap [H2 [H3 H4]]]].
-  rewrite Hap in H1. inversion H1; subst. cbn [ct at_ out_of]. auto.
-Qed.
-(* a key is pending whenever a thread waits at the copy inside setDelayedValue *)
-Lemma at_copy_pending ns pl progs s t l o : R ns pl progs s -> torn (gl s) = false ->
-  nth_error (thr s) t = Some l -> at_ l = P_call o ->
-  exists k key v q, o = SetValue false k key v /\ afind key (pend (ct (gl s)) k) = Some q /\
-                    nth_error (heap (ct (gl s))) q = Some (Cell k key Unset) /\ mtx (gl s) = Some t.
-Proof.
-  intros HR Ht Hl Ha.
-  destruct (G_call _ _ (R_good _ _ _ _ HR Ht) t o (eq_trans (pcof_at _ _ _ Hl) Ha)) as [_ [k [key [v [q [-> Hf]]]]]].
-  assert (Hnf : is_ful (at_ l) = false) by (rewrite Ha; reflexivity).
-  assert (Hh : holds (at_ l) = true) by (rewrite Ha; reflexivity).
-  destruct (section_cinv _ _ _ _ _ _ HR Ht Hl Hnf (or_intror Hh)) as [HC _].
-  exists k, key, v, q. repeat split; auto.
-  - apply (C_pend _ HC). apply afind_In. exact Hf.
-  - apply (B_owner _ _ (R_base _ _ _ _ HR)). rewrite (pcof_at _ _ _ Hl), Ha. reflexivity.
-Qed.
-(* do_set_exn_keeps_pending: a throwing copy in setDelayedValue changes nothing: the key is still
-   pending with its promise unsatisfied, no fault, not torn; the next step releases the mutex *)
-Lemma set_exn_keeps_pending ns pl progs s t c l g' l' es o :
-  R ns pl progs s -> torn (gl s) = false -> nth_error (thr s) t = Some l -> at_ l = P_call o ->
-  throws (gl s) = true -> tstep t c (gl s) l = Some (g', l', es) ->
-  ct g' = ct (gl s) /\ at_ l' = P_unlock OExn /\ torn g' = false /\ faulted g' = false /\
-  exists k key v q, o = SetValue false k key v /\ afind key (pend (ct g') k) = Some q /\
-                    nth_error (heap (ct g')) q = Some (Cell k key Unset).
-Proof.
-  intros HR Ht Hl Ha Hth Hs.
-  destruct (at_copy_pending _ _ _ _ _ _ _ HR Ht Hl Ha) as [k [key [v [q [-> [Hf [Hq _]]]]]]].
-  pose proof (G_nf _ _ (R_good _ _ _ _ HR Ht)) as Hnf.
-  apply tstep_stepk in Hs. destruct Hs; try congruence. cbn [ct at_ torn faulted].
-  repeat split; auto. exists k, key, v, q. auto.
-Qed.
-Lemma unlock_step t c g l g' l' es out : tstep t c g l = Some (g', l', es) -> at_ l = P_unlock out ->
-  es = unlock_evs out /\ at_ l' = Idle /\ ct g' = ct g /\ mtx g' = None /\ torn g' = torn g /\ faulted g' = faulted g.
-Proof.
-  intros Hs Ha. apply tstep_stepk in Hs. destruct Hs; try congruence.
-  rewrite Ha in H. inversion H; subst. cbn. repeat split; reflexivity.
-Qed.
-
-(* setDelayedValue for a key that is not pending: nothing changes, no copy is made *)
-Lemma set_noop t c g l g' l' es mv k key v :
-  at_ l = P_lock (SetValue mv k key v) -> tstep t c g l = Some (g', l', es) -> ahas key (pend (ct g) k) = false ->
-  ct g' = ct g /\ at_ l' = P_unlock (ORet 0).
-Proof.
-  intros Ha Hs Hf.
-  assert (Hn : afind key (pend (ct g) k) = None) by (unfold ahas in Hf; destruct (afind key (pend (ct g) k)); [discriminate|reflexivity]).
-  apply tstep_stepk in Hs. destruct Hs; try congruence.
-  rewrite Ha in H. inversion H; subst o. cbn [enter] in H1. destruct mv.
-  - rewrite (apply_set_noop _ true _ _ v Hn) in H1. inversion H1; subst. cbn. auto.
-  - rewrite Hn in H1. inversion H1; subst. cbn. auto.
-Qed.
-
-(* fulfillAllPromises, one (non-throwing) copy: the promise at the iterator - and no other - gets v *)
-Lemma fulfill_step ns pl progs s t c l g' l' es v k key q r d c0 :
-  R ns pl progs s -> torn (gl s) = false -> nth_error (thr s) t = Some l -> at_ l = P_ful v k key q r d c0 ->
-  throws (gl s) = false -> tstep t c (gl s) l = Some (g', l', es) ->
-  is_unset (heap (ct (gl s))) q = true /\ fut_get (heap (ct g')) (Some q) = v /\
-  hle (heap (ct (gl s))) (heap (ct g')) /\
-  (forall i k0 key0 w, i <> q -> nth_error (heap (ct g')) i = Some (Cell k0 key0 (SetV w)) ->
-     nth_error (heap (ct (gl s))) i = Some (Cell k0 key0 (SetV w))) /\
-  (is_ful (at_ l') = true \/ at_ l' = P_unlock (ORet 0)).
-Proof.
-  intros HR Ht Hl Ha Hth Hs.
-  destruct (G_ful _ _ (R_good _ _ _ _ HR Ht) t _ _ _ _ _ _ _ (eq_trans (pcof_at _ _ _ Hl) Ha)) as [_ [_ [_ [[cf [_ Hf]] _]]]].
-  pose proof (finish_head_unset _ _ _ _ _ _ _ Hf) as Hu.
-  pose proof (tstep_stepk _ _ _ _ _ _ _ Hs) as Hk. pose proof (stepk_hle _ _ _ _ _ _ Hk) as Hle.
-  destruct Hk; try congruence.
-  - rewrite Ha in H. inversion H; subst. destruct (finish_step _ _ _ _ _ _ _ Hf) as [h1 [E _]]. congruence.
-  - rewrite Ha in H. inversion H; subst. cbn [ct at_] in *.
-    pose proof (ful_goto_heap _ _ _ _ _ _ _ _ _ H2) as Hheap.
-    destruct (finish_step _ _ _ _ _ _ _ Hf) as [h1' [E Hf']]. rewrite H1 in E. inversion E; subst h1'.
-    destruct (ful_goto_spec _ _ _ _ _ _ _ _ _ _ Hf' H2) as [_ Hc].
-    split; [exact Hu|]. split; [|split; [exact Hle|split]].
-    + destruct (set_value_spec _ _ _ _ H1) as [kk [kkey [_ [E' _]]]].
-      cbn [fut_get].
-      assert (Hh1 : hle h1 (heap c')) by (rewrite Hheap; unfold iter; cbn [heap]; apply hle_drop_opt).
-      destruct (Hh1 _ _ _ _ E') as [st2 [E2 F2]]. rewrite E2. rewrite F2 by discriminate. reflexivity.
-    + intros i ki keyi w Hne Hi. rewrite Hheap in Hi.
-      destruct (iter_heap _ _ _ _ _ _ (or_intror I) H1 _ _ _ _ Hi) as [Hold|[-> _]]; [exact Hold|contradiction].
-    + destruct Hc as [[k' [key' [q' [r' [-> _]]]]]|[-> _]]; [left; reflexivity|right; reflexivity].
-Qed.
-(* ... and when the method gets through both loops, the container is exactly the result of the sequential
-   body applied to the container it found when it took the lock *)
-Lemma fulfill_completes ns pl progs s t c l g' l' es v k key q r d c0 :
-  R ns pl progs s -> torn (gl s) = false -> nth_error (thr s) t = Some l -> at_ l = P_ful v k key q r d c0 ->
-  tstep t c (gl s) l = Some (g', l', es) -> at_ l' = P_unlock (ORet 0) ->
-  CInv c0 /\ apply (FulfillAll v) c0 = (ct g', 0, false) /\ replay (hist (gl s)) cont0 = Some c0 /\
-  hist g' = hist (gl s) ++ [(t, FulfillAll v, ORet 0)].
-Proof.
-  intros HR Ht Hl Ha Hs Ha'.
-  destruct (G_ful _ _ (R_good _ _ _ _ HR Ht) t _ _ _ _ _ _ _ (eq_trans (pcof_at _ _ _ Hl) Ha)) as [HC0 [HRp [_ [[cf [Hap Hf]] _]]]].
-  apply tstep_stepk in Hs. destruct Hs; try congruence; cbn [at_] in Ha'; try discriminate.
-  rewrite Ha in H. inversion H; subst. cbn [ct hist].
-  destruct (finish_step _ _ _ _ _ _ _ Hf) as [h1' [E Hf']]. rewrite H1 in E. inversion E; subst h1'.
-  destruct (ful_goto_spec _ _ _ _ _ _ _ _ _ _ Hf' H2) as [_ [[k' [key' [q' [r' [E1 _]]]]]|[E1 E2]]].
-  - discriminate E1.
-  - rewrite E2. cbn [log_out]. auto.
-Qed.
-(* what the sequential body of fulfillAllPromises does: every unsatisfied promise gets v, nothing else changes *)
-Lemma fulfill_all_seq c v : CInv c ->
-  exists c', apply (FulfillAll v) c = (c', 0, false) /\ length (heap c') = length (heap c) /\
-    (forall k, pend c' k = []) /\
-    (forall q k key st, nth_error (heap c) q = Some (Cell k key st) ->
-       nth_error (heap c') q = Some (Cell k key (settle v st))).
-Proof. apply apply_fulfill. Qed.
-
-(* ---------- every completed critical section is the sequential body ---------- *)
-Lemma section_lock ns pl progs s t c l g' l' es o rv :
-  R ns pl progs s -> torn (gl s) = false -> nth_error (thr s) t = Some l -> at_ l = P_lock o ->
-  tstep t c (gl s) l = Some (g', l', es) -> at_ l' = P_unlock (ORet rv) ->
-  CInv (ct (gl s)) /\ apply o (ct (gl s)) = (ct g', rv, false) /\ hist g' = hist (gl s) ++ [(t, o, ORet rv)].
-Proof.
-  intros HR Ht Hl Ha Hs Ha'. apply tstep_stepk in Hs. destruct Hs; try congruence.
-  rewrite Ha in H. inversion H; subst o0.
-  assert (Hnf : is_ful (at_ l) = false) by (rewrite Ha; reflexivity).
-  destruct (section_cinv _ _ _ _ _ _ HR Ht Hl Hnf (or_introl H0)) as [HC _].
-  destruct (enter_spec _ _ _ _ _ HC H1) as [_ [[k [key [v [q [_ [-> _]]]]]]|[[rv0 [-> Hap]]|[v [k [key [q [r [cf [_ [-> _]]]]]]]]]]];
-    cbn [at_] in Ha'; try discriminate.
-  inversion Ha'; subst rv0. cbn [ct hist log_out]. auto.
-Qed.
-Lemma section_copy ns pl progs s t c l g' l' es o :
-  R ns pl progs s -> torn (gl s) = false -> nth_error (thr s) t = Some l -> at_ l = P_call o ->
-  throws (gl s) = false -> tstep t c (gl s) l = Some (g', l', es) ->
-  exists rv, at_ l' = P_unlock (ORet rv) /\ CInv (ct (gl s)) /\ apply o (ct (gl s)) = (ct g', rv, false) /\
-             hist g' = hist (gl s) ++ [(t, o, ORet rv)].
-Proof.
-  intros HR Ht Hl Ha Hth Hs. apply tstep_stepk in Hs. destruct Hs; try congruence.
-  rewrite Ha in H. inversion H; subst o0.
-  assert (Hnf : is_ful (at_ l) = false) by (rewrite Ha; reflexivity).
-  assert (Hh : holds (at_ l) = true) by (rewrite Ha; reflexivity).
-  destruct (section_cinv _ _ _ _ _ _ HR Ht Hl Hnf (or_intror Hh)) as [HC _].
-  destruct (apply_CInv _ _ _ _ _ HC H1) as [_ ->]. exists rv. cbn. auto.
-Qed.
-
-(* ---------- destruction: do_never_hangs, do_fulfilled_once ---------- *)
-Definition requested_once (h : heap_t) (q : nat) (k : bool) (key : Z) : Prop :=
-  forall q' st', nth_error h q' = Some (Cell k key st') -> q' = q.
-
-Lemma destroyed ns pl progs s : R ns pl progs s -> torn (gl s) = false -> calm s ->
-  exists h', destroy (ct (gl s)) = Some h' /\ length h' = length (heap (ct (gl s))) /\
-    (forall q k key st, nth_error (heap (ct (gl s))) q = Some (Cell k key st) ->
-       nth_error h' q = Some (Cell k key (settle 0 st))).
-Proof. intros HR Ht Hc. apply destroy_spec. eapply R_cinv; eauto. Qed.
-
-Lemma never_hangs ns pl progs s h' : R ns pl progs s -> torn (gl s) = false -> calm s ->
-  destroy (ct (gl s)) = Some h' ->
-  (forall q x, nth_error h' q = Some x -> cst x <> Unset) /\
-  (forall u l i p, nth_error (thr s) u = Some l -> nth_error (slots l) i = Some (Some p) ->
-     fut_ready h' (Some p) = 1).
-Proof.
-  intros HR Ht Hc Hd. destruct (destroyed _ _ _ _ HR Ht Hc) as [h'' [Hd' [Hlen Hcell]]]. rewrite Hd in Hd'. inversion Hd'; subst h''.
-  assert (Hno : forall q x, nth_error h' q = Some x -> cst x <> Unset).
-  { intros q x Hq. destruct (nth_error (heap (ct (gl s))) q) as [[k key st]|] eqn:E.
-    - rewrite (Hcell _ _ _ _ E) in Hq. inversion Hq; subst. cbn. destruct st; discriminate.
-    - apply nth_error_None in E. assert (q < length h')%nat by (apply nth_error_Some; congruence). lia. }
-  split; [exact Hno|]. intros u l i p Hu Hi.
-  pose proof (B_slots _ _ (R_base _ _ _ _ HR) _ _ _ _ Hu Hi) as Hp.
-  cbn [fut_ready]. destruct (nth_error h' p) as [[k key st]|] eqn:E.
-  - specialize (Hno _ _ E). cbn in Hno. destruct st; congruence.
-  - apply nth_error_None in E. lia.
-Qed.
-Lemma fulfilled_once ns pl progs s h' q k key st :
-  R ns pl progs s -> torn (gl s) = false -> calm s -> destroy (ct (gl s)) = Some h' ->
-  nth_error (heap (ct (gl s))) q = Some (Cell k key st) -> requested_once (heap (ct (gl s))) q k key ->
-  st <> Broken /\ exists v, nth_error h' q = Some (Cell k key (SetV v)) /\ (st = SetV v \/ (st = Unset /\ v = 0)).
-Proof.
-  intros HR Ht Hc Hd Hq Honce. destruct (destroyed _ _ _ _ HR Ht Hc) as [h'' [Hd' [Hlen Hcell]]]. rewrite Hd in Hd'. inversion Hd'; subst h''.
-  assert (Hnb : st <> Broken).
-  { intros ->. destruct (C_broken _ (R_cinv _ _ _ _ HR Ht Hc) _ _ _ Hq) as [q' [st' [Hlt Hq']]].
-    specialize (Honce _ _ Hq'). lia. }
-  split; [exact Hnb|]. specialize (Hcell _ _ _ _ Hq). destruct st; cbn [settle] in Hcell.
-  - exists 0. auto.
-  - exists v. auto.
-  - congruence.
-Qed.
-Lemma broken_only_by_rerequest ns pl progs s q k key :
-  R ns pl progs s -> torn (gl s) = false -> calm s -> nth_error (heap (ct (gl s))) q = Some (Cell k key Broken) ->
-  exists q' st, (q < q')%nat /\ nth_error (heap (ct (gl s))) q' = Some (Cell k key st).
-Proof. intros HR Ht Hc. apply (C_broken _ (R_cinv _ _ _ _ HR Ht Hc)). Qed.
-Lemma provenance ns pl progs s q k key v : R ns pl progs s -> torn (gl s) = false ->
-  nth_error (heap (ct (gl s))) q = Some (Cell k key (SetV v)) ->
-  exists t, (exists mv, In (t, SetValue mv k key v) (began (gl s))) \/ In (t, FulfillAll v) (began (gl s)).
-Proof. intros HR Ht. apply (G_prov _ _ (R_good _ _ _ _ HR Ht)). Qed.
-Lemma slots_valid ns pl progs s u l i p : R ns pl progs s ->
-  nth_error (thr s) u = Some l -> nth_error (slots l) i = Some (Some p) ->
-  exists k key st, nth_error (heap (ct (gl s))) p = Some (Cell k key st).
-Proof.
-  intros HR Hu Hi. pose proof (B_slots _ _ (R_base _ _ _ _ HR) _ _ _ _ Hu Hi) as Hp.
-  destruct (nth_error (heap (ct (gl s))) p) as [[k key st]|] eqn:E; [eauto|].
-  apply nth_error_None in E. lia.
-Qed.
-Lemma both_only_rerequested c k key : CInv c -> abs c k key = (true, true) ->
-  exists q q' st st', q <> q' /\ nth_error (heap c) q = Some (Cell k key st) /\
-                      nth_error (heap c) q' = Some (Cell k key st').
-Proof.
-  intros HC Hab. unfold abs in Hab.
-  assert (H1 : ahas key (pend c k) = true) by congruence.
-  assert (H2 : ahas key (used c k) = true) by congruence.
-  apply ahas_true in H1. apply ahas_true in H2. destruct H1 as [q H1], H2 as [q' H2].
-  pose proof (C_pend _ HC _ _ _ H1) as E1. destruct (C_used _ HC _ _ _ H2) as [v E2].
-  exists q, q', Unset, (SetV v). repeat split; auto. intros ->. congruence.
-Qed.
-
-(* ---------- do_linearizable / do_atomic_sections ---------- *)
-Lemma linearizable ns pl progs s : R ns pl progs s -> torn (gl s) = false -> calm s ->
-  replay (hist (gl s)) cont0 = Some (ct (gl s)).
-Proof. intros HR Ht Hc. apply (G_cinv _ _ (R_good _ _ _ _ HR Ht) Hc). Qed.
-
-(* the two ghost logs: `began` gets the call at its lock step; `hist` gets it, with its outcome, at the
-   step that ends its body - a step of the owner of the lock, between that call's invoke and return *)
-Lemma lin_point t c g l g' l' es : tstep t c g l = Some (g', l', es) ->
-  match at_ l with
-  | P_lock o => began g' = began g ++ [(t, o)] /\ mtx g = None /\ mtx g' = Some t
-  | _ => began g' = began g
-  end /\
-  (hist g' = hist g \/
-   exists o out, hist g' = hist g ++ [(t, o, out)] /\ at_ l' = P_unlock out /\ (is_lock (at_ l) = true \/ holds (at_ l) = true)).
-Proof.
-  intros Hs. apply tstep_stepk in Hs. destruct Hs; cbn [began hist mtx at_];
-    match goal with Ha : at_ _ = _ |- _ => rewrite Ha end; cbn [is_lock holds]; try (split; [auto|left; reflexivity]; fail).
-  - split; [auto|]. destruct p' as [| | | |out]; cbn [log_out]; try (left; reflexivity).
-    destruct out; [right; eexists _, _; eauto|left; reflexivity|right; eexists _, _; eauto].
-  - split; [reflexivity|]. right. eexists _, _; eauto.
-  - split; [reflexivity|]. destruct flt; cbn [out_of log_out]; [left; reflexivity|right; eexists _, _; eauto].
-  - split; [reflexivity|]. right. eexists _, _; eauto.
-  - split; [reflexivity|]. destruct p' as [| | | |out]; cbn [log_out]; try (left; reflexivity).
-    destruct out; [right; eexists _, _; eauto|left; reflexivity|right; eexists _, _; eauto].
-Qed.
-
-(* the container changes only in steps of a thread that is taking or owns promiseLock *)
-Lemma ct_changes_only_in_cs t c g l g' l' es :
-  tstep t c g l = Some (g', l', es) -> is_lock (at_ l) = false -> holds (at_ l) = false -> ct g' = ct g.
-Proof.
-  intros Hs Hn Hh. apply tstep_stepk in Hs. destruct Hs; cbn [ct]; try reflexivity;
-    match goal with Ha : at_ _ = _ |- _ => rewrite Ha in Hn, Hh end; discriminate.
-Qed.
-Lemma mutual_exclusion ns pl progs s u u' :
-  R ns pl progs s -> holds (pcof (thr s) u) = true -> holds (pcof (thr s) u') = true -> u = u'.
-Proof.
-  intros HR H1 H2. pose proof (R_base _ _ _ _ HR) as HB.
-  pose proof (B_owner _ _ HB _ H1). pose proof (B_owner _ _ HB _ H2). congruence.
-Qed.
-Lemma in_section_owns ns pl progs s u : R ns pl progs s ->
-  (holds (pcof (thr s) u) = true <-> mtx (gl s) = Some u).
-Proof.
-  intros HR. pose proof (R_base _ _ _ _ HR) as HB. split; [apply (B_owner _ _ HB)|apply (B_held _ _ HB)].
-Qed.
-
-(* ---------- liveness ---------- *)
-Lemma holder_enabled ns pl progs s a c : R ns pl progs s -> mtx (gl s) = Some a -> enabledD s a c.
-Proof.
-  intros HR Hm. pose proof (B_held _ _ (R_base _ _ _ _ HR) a Hm) as Hh. unfold pcof in Hh.
-  destruct (nth_error (thr s) a) as [l|] eqn:Hl; [|discriminate].
-  assert (exists r, tstep a c (gl s) l = Some r) as [r Hr]; [|exists l, r; auto].
-  destruct l as [pr p sl]. cbn in Hh. unfold tstep. cbn [at_ prog slots]. destruct p; try discriminate.
-  - destruct (throws (gl s)); [eexists; reflexivity|].
-    destruct (apply o (ct (gl s))) as [[c' rv] flt]. eexists; reflexivity.
-  - destruct (throws (gl s)); [eexists; reflexivity|].
-    destruct (set_value q v (heap (ct (gl s)))) as [h1|]; [|eexists; reflexivity].
-    destruct (ful_goto v (S done) c0 _ k r) as [[c' p'] flt]. eexists; reflexivity.
-  - eexists; reflexivity.
-Qed.
-
-(* a method can be disabled only while it waits for promiseLock, and then the owner can move *)
-Lemma blocks_only_on_mutex ns pl progs s t c l :
-  R ns pl progs s -> nth_error (thr s) t = Some l -> fin l = false -> tstep t c (gl s) l = None ->
-  exists o a, at_ l = P_lock o /\ mtx (gl s) = Some a /\ a <> t /\ enabledD s a 0.
-Proof.
-  intros HR Hl Hf Hs.
-  destruct (at_ l) as [|o|o|v k key q r d c0|out] eqn:Ha.
-  - exfalso. destruct l as [pr p sl]. cbn in Ha. subst p. unfold tstep in Hs. cbn [at_ prog slots] in *.
-    destruct pr as [|o r]; [discriminate|]. destruct o; discriminate.
-  - destruct (mtx (gl s)) as [a|] eqn:Hm.
-    + exists o, a. repeat split; auto.
-      * intros ->. pose proof (B_held _ _ (R_base _ _ _ _ HR) t Hm) as Hh. rewrite (pcof_at _ _ _ Hl), Ha in Hh. discriminate.
-      * eapply holder_enabled; eauto.
-    + exfalso. unfold tstep in Hs. rewrite Ha, Hm in Hs. destruct (enter o (ct (gl s))) as [[c' p'] flt]. discriminate.
-  - exfalso. assert (mtx (gl s) = Some t) as Hm.
-    { apply (B_owner _ _ (R_base _ _ _ _ HR)). rewrite (pcof_at _ _ _ Hl), Ha. reflexivity. }
-    destruct (holder_enabled _ _ _ _ _ c HR Hm) as [l0 [r0 [Hl0 Hr0]]]. congruence.
-  - exfalso. assert (mtx (gl s) = Some t) as Hm.
-    { apply (B_owner _ _ (R_base _ _ _ _ HR)). rewrite (pcof_at _ _ _ Hl), Ha. reflexivity. }
-    destruct (holder_enabled _ _ _ _ _ c HR Hm) as [l0 [r0 [Hl0 Hr0]]]. congruence.
-  - exfalso. assert (mtx (gl s) = Some t) as Hm.
-    { apply (B_owner _ _ (R_base _ _ _ _ HR)). rewrite (pcof_at _ _ _ Hl), Ha. reflexivity. }
-    destruct (holder_enabled _ _ _ _ _ c HR Hm) as [l0 [r0 [Hl0 Hr0]]]. congruence.
-Qed.
-
-(* no deadlock, no hang: when nothing can move, every program has run to completion *)
-Lemma quiescent_all_fin ns pl progs s : R ns pl progs s -> quiescentD s -> all_fin glob loc fin s = true.
-Proof.
-  intros HR HQ. unfold all_fin. apply forallb_forall. intros l Hin.
-  apply In_nth_error in Hin. destruct Hin as [t Hl].
-  destruct (fin l) eqn:Hf; [reflexivity|exfalso].
-  destruct (tstep t 0 (gl s) l) as [r|] eqn:Hs.
-  - apply (HQ t 0%nat); [lia|]. exists l, r. auto.
-  - destruct (blocks_only_on_mutex _ _ _ _ _ _ _ HR Hl Hf Hs) as [o [a [_ [_ [_ He]]]]].
-    apply (HQ a 0%nat); [lia|exact He].
-Qed.
-
-(* ---------- do_never_twice_refuted: what a throwing copy in the middle of fulfillAllPromises does ---------- *)
-(* one thread: two int keys requested; fulfillAllPromises whose second copy throws; then setDelayedValue
-   for the first key *)
-Definition bad_progs : list (list op) :=
-  [[GetFuture false 1 0; GetFuture false 2 1; FulfillAll 5000; SetValue false false 1 77]].
-Definition bad_state : sysD := runD (init 2 [1] bad_progs) (repeat (0%nat, 0%nat) 14).
-Lemma never_twice_refuted :
-  R 2 [1] bad_progs bad_state /\ torn (gl bad_state) = true /\ faulted (gl bad_state) = true /\
-  all_fin glob loc fin bad_state = true /\ mtx (gl bad_state) = None /\
-  destroy (ct (gl bad_state)) = None /\
-  ahas 1 (pend (ct (gl bad_state)) false) = true /\ ahas 1 (used (ct (gl bad_state)) false) = true /\
-  fut_get (heap (ct (gl bad_state))) (Some 0%nat) = 5000 /\ fut_get (heap (ct (gl bad_state))) (Some 1%nat) = C_NOTREADY.
-Proof. split; [eexists; reflexivity|]. vm_compute. repeat split; reflexivity. Qed.
-
-(* ---------- bounded work ---------- *)
-(* the pending maps never hold more entries than getFuture calls were written in the programs:
-   N bounds the length of every fulfillAllPromises loop *)
-Definition getf_op (o : op) : nat := match o with GetFuture _ _ _ => 1 | _ => 0 end.
-Definition getfs_prog (p : list op) : nat := list_sum (map getf_op p).
-Definition getf_loc (l : loc) : nat :=
-  (getfs_prog (prog l) + match at_ l with P_lock o | P_call o => getf_op o | _ => 0 end)%nat.
-Definition Phi (c : cont) : nat := (length (pend c false) + length (pend c true))%nat.
-Definition PInv (N : nat) (g : glob) (ls : list loc) : Prop := (Phi (ct g) + list_sum (map getf_loc ls) <= N)%nat.
-
-Lemma apply_phi o c c' rv flt : apply o c = (c', rv, flt) -> (Phi c' <= Phi c + getf_op o)%nat.
-Proof.
-  intros Ha. unfold Phi. destruct o; cbn [apply getf_op] in *.
-  - inversion Ha; subst. cbn [pend]. destruct k; unfold setf; cbn;
-      [pose proof (aput_length key (length (heap c)) (pend c true))|pose proof (aput_length key (length (heap c)) (pend c false))]; lia.
-  - destruct (afind key (pend c k)); [|inversion Ha; subst; lia].
-    destruct (set_value n v (heap c)); inversion Ha; subst; [|lia]. cbn [pend].
-    destruct k; unfold setf; cbn; [pose proof (adel_length key (pend c true))|pose proof (adel_length key (pend c false))]; lia.
-  - destruct (finish v false (pend c false) c) as [cf|] eqn:Hf; inversion Ha; subst; [|lia].
-    unfold finish in Hf. destruct (fulfill (pend c false) v (used c false) (heap c)) as [[u0 h0]|]; [|discriminate].
-    destruct (fulfill (pend c true) v (used c true) h0) as [[u1 h1]|]; inversion Hf; subst. cbn. lia.
-  - inversion Ha; subst; lia.
-  - inversion Ha; subst; lia.
-  - inversion Ha; subst. cbn [pend]. lia.
-  - inversion Ha; subst; lia.
-  - inversion Ha; subst; lia.
-Qed.
-Lemma ful_goto_phi v d c0 c k r c' p' flt : ful_goto v d c0 c k r = (c', p', flt) -> (Phi c' <= Phi c)%nat.
-Proof.
-  intros H. destruct (ful_goto_cases _ _ _ _ _ _ _ _ _ H) as [[k' [key [q [r' [_ [-> _]]]]]]|[[_ [_ [E _]]]|[_ [-> _]]]]; try lia.
-  unfold Phi. rewrite E. cbn. lia.
-Qed.
-Lemma enter_phi o c c' p' flt : enter o c = (c', p', flt) -> (Phi c' <= Phi c + getf_op o)%nat.
-Proof.
-  intros He. destruct o; cbn [enter] in He;
-    try solve [destruct (apply _ c) as [[c1 rv] fl] eqn:Ha; inversion He; subst; eapply apply_phi; exact Ha].
-  - destruct mv; [destruct (apply (SetValue true k key v) c) as [[c1 rv] fl] eqn:Ha; inversion He; subst; eapply apply_phi; exact Ha|].
-    destruct (afind key (pend c k)); [destruct (is_unset (heap c) n)|]; inversion He; subst; lia.
-  - pose proof (ful_goto_phi _ _ _ _ _ _ _ _ _ He). cbn. lia.
-Qed.
-
-Lemma PInv_step N t g ls l g' l' es : PInv N g ls -> nth_error ls t = Some l -> stepk t g l g' l' es ->
-  PInv N g' (upd ls t l').
-Proof.
-  unfold PInv. intros HP Hl Hs. pose proof (sum_upd getf_loc ls t l l' Hl) as Hsum.
-  assert (Hgoal : (Phi (ct g') + getf_loc l' <= Phi (ct g) + getf_loc l)%nat -> (Phi (ct g') + list_sum (map getf_loc (upd ls t l')) <= N)%nat) by lia.
-  apply Hgoal. clear Hgoal Hsum HP. unfold getf_loc.
-  destruct Hs; cbn [ct prog at_]; match goal with Ha : at_ _ = _ |- _ => rewrite Ha end; try lia.
-  - rewrite H0. unfold getfs_prog. simpl. lia.
-  - rewrite H0. unfold getfs_prog. simpl. destruct o; cbn in *; try lia; discriminate.
-  - pose proof (enter_phi _ _ _ _ _ H1).
-    destruct (enter_cases _ _ _ _ _ H1) as [[-> [-> _]]|[[v [k [key [q [r [_ [-> _]]]]]]]|[out ->]]]; lia.
-  - pose proof (apply_phi _ _ _ _ _ H1). lia.
-  - pose proof (ful_goto_phi _ _ _ _ _ _ _ _ _ H2) as Hphi. unfold Phi, iter in *. cbn [pend] in Hphi.
-    destruct (ful_goto_cases _ _ _ _ _ _ _ _ _ H2) as [[k' [key' [q' [r' [-> _]]]]]|[[-> _]|[-> _]]]; lia.
-Qed.
-
-(* the measure: every call costs at most 2N+6 steps (N = number of getFuture calls in the programs) *)
-Definition wpc (N : nat) (p : pc) : nat :=
-  match p with
-  | Idle => 0
-  | P_lock _ => 2 * N + 5
-  | P_call _ => 2
-  | P_ful _ false _ _ r _ c0 => length r + length (pend c0 true) + 2
-  | P_ful _ true _ _ r _ _ => length r + 2
-  | P_unlock _ => 1
-  end.
-Definition wloc (N : nat) (l : loc) : nat := ((2 * N + 6) * length (prog l) + wpc N (at_ l))%nat.
-Definition mu (N : nat) (s : sysD) : nat := list_sum (map (wloc N) (thr s)).
-Definition any_choice (c : nat) : bool := true.
-Definition Inv2 (N : nat) (g : glob) (ls : list loc) : Prop := Inv g ls /\ PInv N g ls.
-
-Lemma Inv2_step N : forall g ls t c l g' l' es,
-  Inv2 N g ls -> nth_error ls t = Some l -> tstep t c g l = Some (g', l', es) -> Inv2 N g' (upd ls t l').
-Proof.
-  intros g ls t c l g' l' es [HI HP] Hl Hs. split; [eapply Inv_step; eauto|].
-  eapply PInv_step; eauto. eapply tstep_stepk; eauto.
-Qed.
-
-Lemma ful_goto_w N v d c0 c k r c' p' flt : ful_goto v d c0 c k r = (c', p', flt) -> pend c true = pend c0 true ->
-  (wpc N p' <= length r + (if k then 0 else length (pend c0 true)) + 1)%nat.
-Proof.
-  unfold ful_goto. intros H E. destruct r as [|[key q] r'].
-  - destruct k; [inversion H; subst; cbn; lia|]. rewrite E in H.
-    destruct (pend c0 true) as [|[key q] r']; [inversion H; subst; cbn; lia|].
-    destruct (is_unset (heap c) q); inversion H; subst; cbn; lia.
-  - destruct (is_unset (heap c) q); inversion H; subst; [destruct k|]; cbn; lia.
-Qed.
-
-Lemma mu_dec N s t c : Inv2 N (gl s) (thr s) -> any_choice c = true -> enabledD s t c ->
-  (mu N (stepD s (t, c)) < mu N s)%nat.
-Proof.
-  intros [[HB _] HP] _ [l [r [Hl Hs]]]. destruct r as [[g' l'] es].
-  unfold step, sys_step. rewrite Hl, Hs. cbn [fst]. unfold mu. cbn [gl thr].
-  apply (sum_step_dec (wloc N) (wloc N) (thr s) t l l' Hl); [intros; lia|].
-  assert (HPhi : (Phi (ct (gl s)) <= N)%nat) by (unfold PInv in HP; lia).
-  pose proof (pcof_at _ _ _ Hl) as Hp.
-  apply tstep_stepk in Hs. unfold wloc. destruct Hs; cbn [prog at_]; rewrite ?H, ?H0; cbn [length wpc]; try lia.
-  - (* lock *)
-    destruct (enter_cases _ _ _ _ _ H1) as [[-> _]|[[v [k [key [q [r [-> [E _]]]]]]]|[out ->]]]; cbn [wpc]; try lia.
-    cbn [enter] in H1. pose proof (ful_goto_w N _ _ _ _ _ _ _ _ _ H1 eq_refl) as Hw. unfold Phi in HPhi. cbn in Hw. lia.
-  - destruct k; cbn [wpc]; lia.
-  - destruct k; cbn [wpc]; lia.
-  - (* one more iteration *)
-    assert (Hpe : pend (iter (ct (gl s)) k key q h1) true = pend c0 true).
-    { unfold iter; cbn [pend]. eapply (B_fpend _ _ HB t). rewrite Hp. exact H. }
-    pose proof (ful_goto_w N _ _ _ _ _ _ _ _ _ H2 Hpe) as Hw. destruct k; cbn [wpc]; lia.
-Qed.
-
-Definition getfs (progs : list (list op)) : nat := list_sum (map getfs_prog progs).
-Lemma PInv_init ns pl progs : PInv (getfs progs) (gl (init ns pl progs)) (thr (init ns pl progs)).
-Proof.
-  unfold PInv, init, getfs. cbn [gl thr ct]. rewrite map_map. unfold getf_loc. cbn [prog at_].
-  assert (E : map (fun x : list op => (getfs_prog x + 0)%nat) progs = map getfs_prog progs).
-  { apply map_ext. intros. lia. }
-  rewrite E. cbn. lia.
-Qed.
-Lemma R_inv2 ns pl progs s : R ns pl progs s -> Inv2 (getfs progs) (gl s) (thr s).
-Proof.
-  intros H. eapply (reachable_inv glob loc tstep (Inv2 (getfs progs))); [apply Inv2_step| |exact H].
-  split; [apply Inv_init|apply PInv_init].
-Qed.
-(* every schedule makes at most mu moves: no run goes on for ever *)
-Lemma bounded_work ns pl progs s sc : R ns pl progs s -> (moves glob loc tstep s sc <= mu (getfs progs) s)%nat.
-Proof.
-  intros HR. eapply (moves_le_mu glob loc tstep (mu (getfs progs)) (Inv2 (getfs progs)) (Inv2_step _) any_choice).
-  - intros s0 t c. apply mu_dec.
-  - apply (R_inv2 _ _ _ _ HR).
-  - unfold sched_ok. apply forallb_forall. reflexivity.
 Qed.
